@@ -12,2578 +12,1175 @@ Definition show_fres (r : fres) : string :=
   end.
 Definition check (rs : list rune) : string := digest (show_fres (format_res rs)).
 Definition full (rs : list rune) : string := show_fres (format_res rs).
-Eval vm_compute in ("<<<M3879>>>" ++ check (runes_of_ascii "packet f32a {
-    @calculatedFrom(""packet"")
-    @tag(00)
-    @leftPad('0')
-    rootA,
-    @tag(65535)
-    string roots @lengthOf(MetaDataX) `" ++ [233]%N ++ runes_of_ascii "`,
-    @rightPad()
-    zchar[10] matchKey @lengthOf(float),
-    @rightPad()
-    roots MetaDataX,
-    u128,// c
-    match len as BodyLength {
-        """ ++ [128512]%N ++ runes_of_ascii """ : float,
-        [
-            4294967296, 00, 0123456789, ""`tick`"", ""it's"",
-            ""\n"", 65535, 7
-        ] : calculatedFrom,
-        [""packet"", 007, ""\" ++ [233]%N ++ runes_of_ascii """] : _x,
-        [""" ++ [128512]%N ++ runes_of_ascii """, ""a\""b"", 0123456789] : _x,
-        65535 : As,
-        255 : stringy,
-    },
-    calculatedFrom {
-        char[] matchKey @calculatedFrom(""" ++ [128512]%N ++ runes_of_ascii """),
-        u32 u8x @lengthOf(i8i8),
-        f32a options1 `line1
-                line2`,
-        float64 rootA,
-        //	t
-        //	t
-    },
-    @tag(0)
-    @lengthOf(Z9_)
-    T Foo `" ++ [233]%N ++ runes_of_ascii "`,
-    match T as Packet {
-        3 : u8x,
-        4294967296 : matchKey,
-        """ ++ [233]%N ++ runes_of_ascii "t" ++ [233]%N ++ runes_of_ascii """ : Foo,
-        ""a\""b"" : repeatCount,
-        7 : stringy,
-    },
-    @leftPad('\x00')
-    repeat pack,
-}
-
-packet x {
-    @lengthOf(falsey)
-    repeat int32 a1,
-    @leftPad()
-    repeat f32a,
-    match Foo as calculatedFrom {
-        ""x y"" : calculatedFrom,
-        7 : len,
-        ""abc"" : charz,
-    },
-    uint8x,
-    @lengthOf(o)
-    // " ++ [27880; 37322]%N ++ runes_of_ascii "
-    repeat string_ {
-        zchar[7] Packet @calculatedFrom(""x y""),
-        repeat string charz,
-        float64 _x @calculatedFrom(""1""),
-    },
-    crc,
-    char[65535] metadata @calculatedFrom(""\n"") `" ++ [28040; 24687; 31867; 22411]%N ++ runes_of_ascii "`,
-    repeat uint64 msg_type `{ , }`,
-    char[1] charz,
-    @rightPad('\x00')
-    repeat i32 o `crlf
-        line`,
-}
-
-MetaData i8i8 {
-    rootA packetx `doc`,
-    x As,
-}//
-
-root packet u128 {
-}
-
-packet falsey {
-    u @lengthOf(i8i8),
-    @lengthOf(u)
-    f32 Header,
-    @calculatedFrom(""`tick`"")
-    stringy @calculatedFrom(""" ++ [233]%N ++ runes_of_ascii "t" ++ [233]%N ++ runes_of_ascii """) `two words`,
-    char[65535] string_ @lengthOf(lengthOf),
-    Pad u128,
-    Packet `
-        `,// `tick` ""quote"" 'q'
-    @calculatedFrom(""abc"")
-    char[00] roots `line1
-        line2`,
-    @tag(7)
-    char[] trueish @calculatedFrom(""\n""),
-    @calculatedFrom(""packet"")
-    @lengthOf(As)
-    char[3] charz @lengthOf(options1),
-    u32 _x @calculatedFrom(""a\\"") `u8 x,`,
-}")).
-Eval vm_compute in ("<<<M3713>>>" ++ check (runes_of_ascii "packet 
-T {@lengthOf(
-    Foo
-	) @tag(
-
-    10	)
-
-@lengthOf(
-rootA
-
-    )
-
-chars  `it's`,
-	repeat char
-    roots //	t
-
-, 
-@tag( 
-0
-)  match charz 
-as leftPad
-
-    { 
-0
-    : tag  ,
-	}, Z9_ // trailing space 
-u128,
-int32
-int
-
-@calculatedFrom(
-
-""\n""	)
-, @lengthOf(
-	int
-)
-    Z9_ 
-
+Eval vm_compute in ("<<<M184>>>" ++ check (runes_of_ascii "MetaData float {
+    lengthOf u128 `tab	here` ,u x ,
+metadata crc `line1
+line2` ,
+} root
+packet//
+trueish { @leftPad (
+'0'
+    ) repeat zchar[ 10 ] lengthOf `u8 x,`
+    ,@leftPad
 // " ++ [27880; 37322]%N ++ runes_of_ascii "
-  {
+// trailing space 
+('\x00'	) zchar[ 255 ] tag
+// a // b
+// @lengthOf(
+,
+@leftPad	(
+    ) u128 trueish, chars@lengthOf(
+    i64_
+) `it's` //	t
+,
+    @tag( 10 ) zchar[
+    007 ] asx, char[
+1]
+    zchar,
+// `tick` ""quote"" 'q'
+// trailing space 
+@tag( 7
+    // packet A { u8 x, }
+    ) @calculatedFrom(""packet""
+    )	match  f32a as
+uint8x{
+00  :Header , 007// trailing space 
+: charz ,[ 255 , """ ++ [233]%N ++ runes_of_ascii "t" ++ [233]%N ++ runes_of_ascii """ ] :
+rootA
+    // `tick` ""quote"" 'q'
+    ""it's"" :
+    lengthOf
+,""x y"" :
+pack //x
+,
+""" ++ [28040; 24687]%N ++ runes_of_ascii """
+: _x , } , repeat Header { char[ 7] i8i8 ,char  msg_type @lengthOf(pack ) `line1
+line2`
+,
+// packet A { u8 x, }
+// a // b
+uint8
+crc @lengthOf(
+zchar ) `line1
+line2` ,} , } packet Foo
+    { } packet// @lengthOf(
+Foo { zchar[0123456789
+    ]
+    packetx
+    @calculatedFrom(
+""packet"" // packet A { u8 x, }
+)
+    `doc`  , zchar @calculatedFrom( ""\n""//	t
+)
+`
+` , @leftPad  ( '\x00' )
+    @tag( // trailing space 
+65535 ) char[ 0
+/// triple
+// c
+] metadata@calculatedFrom( ""a\""b"" ), repeat
+    lengthOf{ lengthOf
+`" ++ [233]%N ++ runes_of_ascii "`
+    // `tick` ""quote"" 'q'
+    ,
+} , As , }
+packet BodyLength {//x
+@calculatedFrom( ""a\""b""
+)
+    @lengthOf( x ) @tag( 00
+) Packet zchar
+    `` ,
+@tag(0123456789 )	repeat	char[ 255 ]  x `it's`,// a // b
+u
+// " ++ [128512]%N ++ runes_of_ascii " emoji
+// c
+{ match BodyLength
+as
+// packet A { u8 x, }
+// `tick` ""quote"" 'q'
+tag
+    {3
+: matchKey ,} ,
+} ,@tag( 0123456789 )
+    // " ++ [128512]%N ++ runes_of_ascii " emoji
+    char	asx `line1
+line2`,@lengthOf( chars ) @calculatedFrom(
+""a	b"" )f64 len
+    , match int as //x
+BodyLength { 1
+:
+    Header ,[ 0 ] :// c
+tag
+""" ++ [28040; 24687]%N ++ runes_of_ascii """ :asx, } , @leftPad
+( ' '
+    ) metadata `crlf
+line` ,
+// `tick` ""quote"" 'q'
+// trailing space 
+len
+@lengthOf( metadata
+    ), zchar[  65535 ]
+    A
+@lengthOf( // c
+trueish )
+,@leftPad ( '0'
+)
+repeatCount Z9_
+    `" ++ [233]%N ++ runes_of_ascii "`  ,
+} 	 ")).
+Eval vm_compute in ("<<<M1899>>>" ++ check (runes_of_ascii "
 
-    repeat
-char[]	calculatedFrom  `crlf
-line` ,zchar[	0
+  options
+{
+StringPrefixLenType
+	=u16
+	;
+
+ArrayPrefixLenType= 
+u16  ;
+	}
+packet
+SampleBinary
+	{
+uint16
+
+    MsgType`" ++ [28040; 24687; 31867; 22411]%N ++ runes_of_ascii "` 
+,u16
+BodyLenght 
+@lengthOf(
+
+Body )
+`" ++ [28040; 24687; 20307; 38271; 24230]%N ++ runes_of_ascii "`,
+match	MsgType
+
+    as
+    Body{
+
+    1
+	:
+	Logon
+    , 2
+	:
+
+    Logout 
+,3
+
+:
+	Heartbeat , 4
+    : RiskControlRequest
+
+, 5  : RiskControlResponse,
+} , 
+@calculatedFrom(
+    ""CRC32"" )
+
+u32
+Ckecksum`" ++ [26657; 39564; 21644]%N ++ runes_of_ascii "` , 
+}
+packet
+Logon  { @leftPad(	'0' ) char[
+	10
+    ]
+
+UserName `" ++ [29992; 25143; 21517]%N ++ runes_of_ascii "`
+	,string Password
+	`" ++ [23494; 30721]%N ++ runes_of_ascii "` ,  uint64
+ClientId  `" ++ [23458; 25143; 31471]%N ++ runes_of_ascii "ID`	,  u16
+	HeartbeatInterval `" ++ [24515; 36339; 38388; 38548]%N ++ runes_of_ascii "`
+,}packet 
+Logout {
+    @rightPad( '0'
+
+    )  char[
+10
 
 ]
-o
-@calculatedFrom(""\" ++ [233]%N ++ runes_of_ascii """) , 
-u8x
-    {
-    _x
-,  // @lengthOf(
-  zchar[ 3
-] stringy
+    UserName
+    `" ++ [29992; 25143; 21517]%N ++ runes_of_ascii "`
 
-@lengthOf(
+,
+uint64 
+ClientId
+`" ++ [23458; 25143; 31471]%N ++ runes_of_ascii "ID`
+,
+    }	packet
+Heartbeat { 
+} packet	RiskControlRequest{  string UniqueOrderId
+`" ++ [21807; 19968; 35746; 21333; 21495]%N ++ runes_of_ascii "` ,
+char[
+	16
+    ] ClOrdID `" ++ [23458; 25143; 35746; 21333; 21495]%N ++ runes_of_ascii "`	, char[
 
-    T
-)	//	t
+    3
+    ] MarketID
+	`" ++ [24066; 22330]%N ++ runes_of_ascii "id`
+,char[	12 
+]SecurityID 
+`" ++ [35777; 21048; 20195; 30721]%N ++ runes_of_ascii "`
+,
+
+    char 
+Side
+
+`" ++ [20080; 21334; 26041; 21521]%N ++ runes_of_ascii "`	, 
+char OrderType
+	`" ++ [35746; 21333; 31867; 22411]%N ++ runes_of_ascii "`
 	, 
-// trailing space 
-	uint8
-	body  , char[]
-falsey
-// `tick` ""quote"" 'q'
-  // @lengthOf(
-    @calculatedFrom(
+u64 
+Price `" ++ [20215; 26684]%N ++ runes_of_ascii "`,
+	u32
+Qty
 
-    ""// no comment""
-    )  `" ++ [233]%N ++ runes_of_ascii "`
-    ,	/// triple
-      }  ,
-}
-    ,
-	@tag(
-
-    1)@calculatedFrom( ""a\\""  )
-
-    // c
-  @rightPad (
-'0'
-	) i32
-    tag 
-@calculatedFrom(
-""a\""b"" 
-)	`crlf
-line`	, match	BodyLength
-
-as  f32a 
-{	[ 3 , ""`tick`""
-
-    ,  ""`tick`""
-,
-
-    007
-    ,""1""
-, 
-65535 // " ++ [128512]%N ++ runes_of_ascii " emoji
-
-	,  //	t
-	1
-    ,
-	0	]	: Z9_  , 
-[  ""CRC32""	,
-    ""a\\"" ] :
-chars
-
-    ,  ""a\""b""  : roots, 1 : f32a
-	,	// " ++ [27880; 37322]%N ++ runes_of_ascii "
-  	}	,
-trueish { 
-//
-    	/// triple
-
-  zchar
-{ match
-Pad
-
-as
-tag
-{
-    [
-0123456789,00
-
-, 7	,""a	b"",	// @lengthOf(
-		""CRC32""
-    ]	:
-    options1
-	, 
-      // @lengthOf(
-    } ,
-    pack {zchar[
-
-    10]chars
-, }  ,
-
-u `crlf
-line`	,
-
-repeat// " ++ [27880; 37322]%N ++ runes_of_ascii "
-    int32 _x
-
-`two words`
-	,
-
-}  ,
-
-    }
-,	// trailing space 
-		falsey  As
-, } options {
-	falsey	// " ++ [128512]%N ++ runes_of_ascii " emoji
-    	= ""abc"" 
-;
-Foo =false
-
-    ;} root
-	packet
-    A
-{ @lengthOf(
-uint8x
-	)
-
-match u8x as
-	msg_type	{
-[ 
-007 ,00
-	] :
-    u128,  [
-    255
-
-    ,// a // b
-    	""{,}""
-
-, 10 
-	    // " ++ [128512]%N ++ runes_of_ascii " emoji
-// " ++ [27880; 37322]%N ++ runes_of_ascii "
-
-  ,
-""// no comment""
-
-,
-    """" 
-,
-
-""" ++ [128512]%N ++ runes_of_ascii """ ]
-	: T , 255:
-	string_,
-
-""`tick`""
-
-    :
-
-As},}
-MetaData chars	{
-	char[ 65535
-	] roots  ,
-	i64
-
-    u128
-,
-
-    char[
-42 
-] pack 	 // " ++ [128512]%N ++ runes_of_ascii " emoji
-    ,
-    } //x")).
-Eval vm_compute in ("<<<M4080>>>" ++ check (runes_of_ascii "packet Packet {
-    @leftPad(' ')
-    repeat As {
-        repeatCount @calculatedFrom(""" ++ [28040; 24687]%N ++ runes_of_ascii """),
-        repeat pack {
-            /// triple
-            x {
-                match As as uint8x {
-                    [
-                        ""1"", ""\" ++ [233]%N ++ runes_of_ascii """, 00, ""it's"", ""a\""b"",
-                        ""\" ++ [233]%N ++ runes_of_ascii """
-                    ] : pack,
-                    [
-                        ""a\""b"", """ ++ [233]%N ++ runes_of_ascii "t" ++ [233]%N ++ runes_of_ascii """, 65535, ""a	b"", ""`tick`"",
-                        ""\n""
-                    ] : As,
-                    0123456789 : float,
-                    /// triple
-                    ""a	b"" : x_y_z,
-                    [""abc""] : stringy,
-                    // trailing space 
-                },
-                f64 MetaDataX,
-                zchar[0123456789] charz,
-            },
-            crc {
-                char[] x_y_z `
-                `,
-                match Z9_ as i8i8 {
-                    00 : charz,
-                },
-            },
-            i8 _x,
-            repeat falsey {
-                // `tick` ""quote"" 'q'
-                char[65535] Packet @calculatedFrom(""x y"") `line1
-                line2`,
-            },
-        },
-        f32a MetaDataX `" ++ [233]%N ++ runes_of_ascii "`,
-        repeat matchKey {
-            int32 int `crlf
-            line`,
-        },
-    },
-    float {
-        string As `// not a comment`,
-        As,
-        stringy,
-    },
-    @tag(00)
-    Foo,
-    repeat int16 Z9_,
-    @lengthOf(u8x)
-    u8x {
-        repeat uint64 asx,
-        // packet A { u8 x, }
-        //
-        repeat int ``,
-        char[1] uint8x @calculatedFrom(""\" ++ [233]%N ++ runes_of_ascii """),
-    },
-    x,
-}")).
-Eval vm_compute in ("<<<M469>>>" ++ check (runes_of_ascii "root
-    packet Header { /// triple
-repeat// " ++ [128512]%N ++ runes_of_ascii " emoji
-int64 _x
-`crlf
-line`//x
-, int16 leftPad , @rightPad( ) uint64 Packet @calculatedFrom( ""abc"" ) `doc` , @rightPad
-    (
-    '0') uint8x
-{ u8 Logon
-    , repeat x_y_z	{	a1 Header `it's`,
-    char[0  ]
-    /// triple
-    pack
-// @lengthOf(
-// trailing space 
-@calculatedFrom(
-    ""a	b""	) `line1
-line2` ,
-o @lengthOf( Header
-    ) `tab	here`
-    ,
-} , rootA zchar ,u128 , } ,@lengthOf( // trailing space 
-string_ )
-    //	t
-    match Foo as calculatedFrom { 0123456789: chars ,007 : string_
-    ,[
-    ""\n"", 4294967296 ] :  leftPad ,""\n"" : u , }, f64 packetx `
-` // c
-,	}
-    packet o
-    {@rightPad// trailing space 
-(
-) // " ++ [128512]%N ++ runes_of_ascii " emoji
+    `" ++ [25968; 37327]%N ++ runes_of_ascii "` ,
 repeat
-    chars `it's`
-// @lengthOf(
-// `tick` ""quote"" 'q'
+	string ExtraInfo`" ++ [38468; 21152; 20449; 24687]%N ++ runes_of_ascii "`
+    ,repeat
+SubOrder
+
+    {	char[16 
+] ClOrdID `" ++ [23376; 35746; 21333; 21495]%N ++ runes_of_ascii "`
+
+    ,u64 Price  `" ++ [23376; 35746; 21333; 20215; 26684]%N ++ runes_of_ascii "` ,
+u32
+    Qty
+
+    `" ++ [23376; 35746; 21333; 25968; 37327]%N ++ runes_of_ascii "`
+    ,  }
+    ,
+}packet	RiskControlResponse
+
+    {
+
+    string UniqueOrderId
+    `" ++ [21807; 19968; 35746; 21333; 21495]%N ++ runes_of_ascii "`
+
+    ,i32
+Status
+`" ++ [29366; 24577]%N ++ runes_of_ascii "` ,
+string Msg
+`" ++ [32467; 26524; 20449; 24687]%N ++ runes_of_ascii "` ,
+repeat
+	Detail
+    ,
+    }  packet
+
+Detail {string
+	RuleName	`" ++ [35268; 21017; 21517; 31216]%N ++ runes_of_ascii "`
+
+, 
+u16  Code
+
+`" ++ [21407; 22240; 20195; 30721]%N ++ runes_of_ascii "`
 ,
-    } MetaData
-A
-// trailing space 
-// c
-{ // c
-uint64 i64_ `" ++ [233]%N ++ runes_of_ascii "`,  } root packet	int
-    { @tag(
-10
-) //x
-repeat a1 body  , @lengthOf( options1// packet A { u8 x, }
-) falsey
-    //
-    { repeat zchar[ 0
-    ]
-    // c
-    i64_ ,repeat u
-{ char[42 ] u8x
-@calculatedFrom( ""a\""b"") ,char[ 255 ] lengthOf @lengthOf( body
-)
-    `u8 x,`	, },repeat
-    pack {
-    trueish body
-`u8 x,`,
-match Logon as charz { [ 7] : x_y_z """ ++ [233]%N ++ runes_of_ascii "t" ++ [233]%N ++ runes_of_ascii """ : int ,
-""abc"" : u ,
-    42 : // trailing space 
-metadata, 10 : leftPad , }
-    ,//x
-char[ 10
-]trueish `tab	here` ,} ,
-}, }
-// @lengthOf(
-// " ++ [27880; 37322]%N ++ runes_of_ascii "
-options
-    //x
-    { rootA = ""`tick`"" As
-    =
-7 ;}
+
+}
+
 ")).
-Eval vm_compute in ("<<<M1389>>>" ++ check (runes_of_ascii "options {
+Eval vm_compute in ("<<<M381>>>" ++ check (runes_of_ascii "options {
 	StringPrefixLenType = u16;
 	ArrayPrefixLenType = u16;
 }
 
 packet SampleBinary {
-    uint16 MsgType `" ++ [28040; 24687; 31867; 22411]%N ++ runes_of_ascii "`,
-    u16 BodyLenght @lengthOf(Body) `" ++ [28040; 24687; 20307; 38271; 24230]%N ++ runes_of_ascii "`,
-    match MsgType as Body {
-        1 : Logon,
-        2 : Logout,
-        3 : Heartbeat,
-        4 : RiskControlRequest,
-        5 : RiskControlResponse,
-    },
-        @calculatedFrom(""CRC32"")
-    u32 Ckecksum `" ++ [26657; 39564; 21644]%N ++ runes_of_ascii "`,
+	uint16 MsgType `" ++ [28040; 24687; 31867; 22411]%N ++ runes_of_ascii "`,
+	u16 BodyLenght @lengthOf(Body) `" ++ [28040; 24687; 20307; 38271; 24230]%N ++ runes_of_ascii "`,
+	match MsgType as Body {
+		1 : Logon,
+		2 : Logout,
+		3 : Heartbeat,
+		4 : RiskControlRequest,
+		5 : RiskControlResponse,
+	},
+	@calculatedFrom(""CRC32"")
+	u32 Ckecksum `" ++ [26657; 39564; 21644]%N ++ runes_of_ascii "`,
 }
 
 packet Logon {
-     @leftPad('0')
-    char[10] UserName `" ++ [29992; 25143; 21517]%N ++ runes_of_ascii "`,
-    string Password `" ++ [23494; 30721]%N ++ runes_of_ascii "`,
-    uint64 ClientId `" ++ [23458; 25143; 31471]%N ++ runes_of_ascii "ID`,
-    u16 HeartbeatInterval `" ++ [24515; 36339; 38388; 38548]%N ++ runes_of_ascii "`,
+	@leftPad('0')
+	char[10] UserName `" ++ [29992; 25143; 21517]%N ++ runes_of_ascii "`,
+	string Password `" ++ [23494; 30721]%N ++ runes_of_ascii "`,
+	uint64 ClientId `" ++ [23458; 25143; 31471]%N ++ runes_of_ascii "ID`,
+	u16 HeartbeatInterval `" ++ [24515; 36339; 38388; 38548]%N ++ runes_of_ascii "`,
 }
 
 packet Logout {
-      @rightPad('0')
-    char[10] UserName `" ++ [29992; 25143; 21517]%N ++ runes_of_ascii "`,
-    uint64 ClientId `" ++ [23458; 25143; 31471]%N ++ runes_of_ascii "ID`,
+	@rightPad('0')
+	char[10] UserName `" ++ [29992; 25143; 21517]%N ++ runes_of_ascii "`,
+	uint64 ClientId `" ++ [23458; 25143; 31471]%N ++ runes_of_ascii "ID`,
 }
 
 packet Heartbeat {
 }
 
 packet RiskControlRequest {
-    string UniqueOrderId `" ++ [21807; 19968; 35746; 21333; 21495]%N ++ runes_of_ascii "`,
-    char[16] ClOrdID `" ++ [23458; 25143; 35746; 21333; 21495]%N ++ runes_of_ascii "`,
-    char[3] MarketID `" ++ [24066; 22330]%N ++ runes_of_ascii "id`,
-    char[12] SecurityID `" ++ [35777; 21048; 20195; 30721]%N ++ runes_of_ascii "`,
-    char Side `" ++ [20080; 21334; 26041; 21521]%N ++ runes_of_ascii "`,
-    char OrderType `" ++ [35746; 21333; 31867; 22411]%N ++ runes_of_ascii "`,
-    u64 Price `" ++ [20215; 26684]%N ++ runes_of_ascii "`,
-    u32 Qty `" ++ [25968; 37327]%N ++ runes_of_ascii "`,
-    repeat string ExtraInfo `" ++ [38468; 21152; 20449; 24687]%N ++ runes_of_ascii "`,
-    repeat SubOrder {
-    		char[16] ClOrdID `" ++ [23376; 35746; 21333; 21495]%N ++ runes_of_ascii "`,
-    		u64 Price `" ++ [23376; 35746; 21333; 20215; 26684]%N ++ runes_of_ascii "`,
-    		u32 Qty `" ++ [23376; 35746; 21333; 25968; 37327]%N ++ runes_of_ascii "`,
-    	},
+	string UniqueOrderId `" ++ [21807; 19968; 35746; 21333; 21495]%N ++ runes_of_ascii "`,
+	char[16] ClOrdID `" ++ [23458; 25143; 35746; 21333; 21495]%N ++ runes_of_ascii "`,
+	char[3] MarketID `" ++ [24066; 22330]%N ++ runes_of_ascii "id`,
+	char[12] SecurityID `" ++ [35777; 21048; 20195; 30721]%N ++ runes_of_ascii "`,
+	char Side `" ++ [20080; 21334; 26041; 21521]%N ++ runes_of_ascii "`,
+	char OrderType `" ++ [35746; 21333; 31867; 22411]%N ++ runes_of_ascii "`,
+	u64 Price `" ++ [20215; 26684]%N ++ runes_of_ascii "`,
+	u32 Qty `" ++ [25968; 37327]%N ++ runes_of_ascii "`,
+	repeat string ExtraInfo `" ++ [38468; 21152; 20449; 24687]%N ++ runes_of_ascii "`,
+	repeat SubOrder {
+		char[16] ClOrdID `" ++ [23376; 35746; 21333; 21495]%N ++ runes_of_ascii "`,
+		u64 Price `" ++ [23376; 35746; 21333; 20215; 26684]%N ++ runes_of_ascii "`,
+		u32 Qty `" ++ [23376; 35746; 21333; 25968; 37327]%N ++ runes_of_ascii "`,
+	},
 }
 
 packet RiskControlResponse {
-    string UniqueOrderId `" ++ [21807; 19968; 35746; 21333; 21495]%N ++ runes_of_ascii "`,
-    i32 Status `" ++ [29366; 24577]%N ++ runes_of_ascii "`,
-    string Msg `" ++ [32467; 26524; 20449; 24687]%N ++ runes_of_ascii "`,
-    repeat Detail,
+	string UniqueOrderId `" ++ [21807; 19968; 35746; 21333; 21495]%N ++ runes_of_ascii "`,
+	i32 Status `" ++ [29366; 24577]%N ++ runes_of_ascii "`,
+	string Msg `" ++ [32467; 26524; 20449; 24687]%N ++ runes_of_ascii "`,
+	repeat Detail,
 }
 
 packet Detail {
-    string RuleName `" ++ [35268; 21017; 21517; 31216]%N ++ runes_of_ascii "`,
-    u16 Code `" ++ [21407; 22240; 20195; 30721]%N ++ runes_of_ascii "`,
+	string RuleName `" ++ [35268; 21017; 21517; 31216]%N ++ runes_of_ascii "`,
+	u16 Code `" ++ [21407; 22240; 20195; 30721]%N ++ runes_of_ascii "`,
 }")).
-Eval vm_compute in ("<<<M4146>>>" ++ check (runes_of_ascii "packet leftPad {
-    // packet A { u8 x, }
-    @leftPad(' ')
-    repeat x `" ++ [233]%N ++ runes_of_ascii "`,
-    repeat pack,
-    // a // b
-    // a // b
-    uint32 A,// @lengthOf(
-    @tag(10)
-    @leftPad()
-    @calculatedFrom(""a	b"")
-    u32 stringy @lengthOf(lengthOf),
-    Foo `line1
-        line2`,
-    crc `u8 x,`,// @lengthOf(
-}
-
-options {
-    //
-    x = float64;
-    u8x = """ ++ [128512]%N ++ runes_of_ascii """;
-    pack = ' ';
-    // c
-    falsey = ""a\""b""
-}
-
-packet As {
-    repeat repeatCount u8x `doc`,
-    @leftPad('0')
-    @calculatedFrom(""\" ++ [233]%N ++ runes_of_ascii """)
-    match asx as crc {
-        4294967296 : u8x,
-        ""\n"" : u128,
-        0 : asx,
-        [255, ""x y""] : Logon,
-        0123456789 : A,
-        255 : i64_,
-    },
-    metadata @lengthOf(u8x),
-    repeat crc {
-        uint32 Packet,
-    },
-    @calculatedFrom(""" ++ [128512]%N ++ runes_of_ascii """)
-    T u128 `{ , }`,
-    repeat i32 msg_type,
-    @lengthOf(T)
-    int,
-    float {
-        // @lengthOf(
-        // `tick` ""quote"" 'q'
-        match trueish as leftPad {
-            [0, """ ++ [28040; 24687]%N ++ runes_of_ascii """] : f32a,
-        },
-        uint32 i8i8,
-        Packet {
-            char[65535] o @calculatedFrom(""it's""),
-        },// a // b
-    },
-    uint8 i8i8 `say ""hi""`,
-}/// triple
-
-packet BodyLength {
-}")).
-Eval vm_compute in ("<<<M4310>>>" ++ check (runes_of_ascii "packet
-    repeatCount 
-
-    // @lengthOf(
-
-  //
-	{ repeat
-	Header
-
-,  char[	42
-    ]  rootA
-``,
-
-    @lengthOf(	stringy )repeat	int16
-
-    leftPad  ,
-repeat 	 // `tick` ""quote"" 'q'
-  	crc  {  
-      //x
-// " ++ [128512]%N ++ runes_of_ascii " emoji
-    zchar[	00
-	]
-body@lengthOf(Foo  ) 
-, repeat  Logon
-{
-    MetaDataX
-@lengthOf( 
-trueish),
-
-uint8 asx @calculatedFrom(
-	""\" ++ [233]%N ++ runes_of_ascii """
-)
-
+Eval vm_compute in ("<<<M356>>>" ++ check (runes_of_ascii "packet
+Header { trueish @calculatedFrom(
+""a	b"")
 ,
-
-    metadata 
-{
-
-    uint8x
-    @lengthOf(
-stringy
-
+    Header@calculatedFrom(
+    ""a\\"" //
 )
-	,repeat	BodyLength
-    metadata`say ""hi""`
-    ,	}
-
+,//	t
+@calculatedFrom(  ""a\\"" )/// triple
+i16	body
+@lengthOf( f32a  ) , // packet A { u8 x, }
+match // packet A { u8 x, }
+stringy as _x{ ""`tick`""
+// trailing space 
+//
+: string_ ,42:u8x , ""\n""
+    :
+    repeatCount, ""a\\"" : options1 ,	[ 4294967296 , ""{,}""
+/// triple
 //x
-    //
-  ,
-	repeat  char[] u,  // trailing space 
-  }, int16
-
-matchKey
-``
-
-,	char[]  // trailing space 
-	u8x @lengthOf(string_), 
-} 
-, 	 // @lengthOf(
-	match
-Logon 
-as zchar 
-{
-[ ""x y""
-
-    , 65535// c
-	,
-	10 ]
-: chars [
-""{,}"" 
-,	""a\""b"" ]
-
+,
+    4294967296 ,  """ ++ [28040; 24687]%N ++ runes_of_ascii """ , 3//	t
+,
+""abc"" ]
 :
-leftPad, 
-  //	t
-  65535
-    :metadata //
-		,
-	[
-10
-
-    ,
-
-7	// a // b
-
-,
-""// no comment""
-
-    , 	 // `tick` ""quote"" 'q'
-  	0
-, 65535
-,  // `tick` ""quote"" 'q'
-      ""abc""
-, 
-7  // " ++ [27880; 37322]%N ++ runes_of_ascii "
-	, 42 ]:MetaDataX	},  repeat
-int8  packetx 
-`// not a comment`
-
-,	// a // b
-
-  }
-packet	x// a // b
-	  {
-	u16 
-roots
-, } options{
-int
-
-    =
-4294967296 u8x = false ; }
-")).
-Eval vm_compute in ("<<<M1240>>>" ++ check (runes_of_ascii "MetaData lengthOf	{i64 u128
-    // trailing space 
-    ,uint32// trailing space 
-calculatedFrom
-,
-    char[ 00] string_ , }
-root
-    packet falsey{char[] // " ++ [128512]%N ++ runes_of_ascii " emoji
-len `line1
-line2` , @tag(255
-)
-uint8x @lengthOf(
-falsey	)
-,
-    float32 // `tick` ""quote"" 'q'
-len ,  repeat calculatedFrom i64_
-`say ""hi""`
-    ,
-    // c
-    @rightPad (
-    // " ++ [27880; 37322]%N ++ runes_of_ascii "
-    '0'	)
-    char[ 10]
-Logon , } packet rootA // c
-{
+    //	t
+    u8x , } , zchar[0123456789
+    ] MetaDataX,@calculatedFrom(
+    ""x y"" //	t
+) @lengthOf( A )	zchar[ //x
+00 ] a1 , match
 // " ++ [128512]%N ++ runes_of_ascii " emoji
-// a // b
-x { falsey
-    Logon
-    ,
-    trueish@calculatedFrom( ""`tick`"")
-    `// not a comment`
-, uint8x
-    body ,
-    } , @calculatedFrom( ""{,}""
-)@calculatedFrom( ""a\\"" )match //x
-f32a as i8i8 {// " ++ [27880; 37322]%N ++ runes_of_ascii "
-10 :
-matchKey , 1:	packetx , 0123456789 :
-    Header
-,
-    ""it's"" :  i64_ , // packet A { u8 x, }
-0 : pack ,} ,repeat
-uint8x	x_y_z`" ++ [28040; 24687; 31867; 22411]%N ++ runes_of_ascii "`, repeat
-char[
-255 ] string_ ,
-@lengthOf( int ) calculatedFrom , @tag( 4294967296
-) u16 packetx @calculatedFrom(  """ ++ [28040; 24687]%N ++ runes_of_ascii """ ) ,	u128 body`doc` , }
-    root packet	tag {
-//x
 // `tick` ""quote"" 'q'
-i32 A
-// @lengthOf(
+options1 as calculatedFrom // packet A { u8 x, }
+{
+    [ ""// no comment""
+    // " ++ [27880; 37322]%N ++ runes_of_ascii "
+    ,  ""abc"" , 65535,	""CRC32""
+, 0
+, ""CRC32"" ]
+: uint8x
+    , ""// no comment"" :
+// " ++ [128512]%N ++ runes_of_ascii " emoji
+// trailing space 
+chars	,	[ """ ++ [233]%N ++ runes_of_ascii "t" ++ [233]%N ++ runes_of_ascii """ , ""a	b"" ]
+    :
+    pack , 10 :	tag ,}  , @tag( 42 )repeat
+    // trailing space 
+    len,
+    @lengthOf( u )char[] f32a
+, // packet A { u8 x, }
+}
+")).
+Eval vm_compute in ("<<<M1655>>>" ++ check (runes_of_ascii "packet u8x {
+}
+
+packet calculatedFrom {
+    i8i8 len,
+    match lengthOf as leftPad {
+        007 : crc,
+        ""abc"" : o,
+        10 : falsey,
+    },
+    repeat i8 metadata,
+    @calculatedFrom(""" ++ [28040; 24687]%N ++ runes_of_ascii """)
+    repeat int16 leftPad ``,
+    BodyLength @calculatedFrom(""a\\""),
+    char[] f32a,
+    tag rootA,
+    @rightPad(' ')
+    @tag(007)
+    match o as _x {
+        [
+            1, ""a	b"", ""1"", 00, 7,
+            """ ++ [233]%N ++ runes_of_ascii "t" ++ [233]%N ++ runes_of_ascii """, 7, 00
+        ] : Foo,
+        // " ++ [27880; 37322]%N ++ runes_of_ascii "
+        ""\" ++ [233]%N ++ runes_of_ascii """ : matchKey,
+    },//x
+    @rightPad('\x00')
+    string msg_type,
+}
+
+packet trueish {
+    u8x ``,
+    @lengthOf(Header)
+    repeat int64 int ``,
+}
+
+MetaData matchKey {
+    string msg_type,
+    zchar[4294967296] repeatCount `it's`,
+    u8 crc,
+    zchar o,
+    int64 asx,
+}
+
+root packet chars {
+}")).
+Eval vm_compute in ("<<<M362>>>" ++ check (runes_of_ascii "  packet
+    // a // b
+    MetaDataX {
+match _x as roots {
+""`tick`"" :o , [00, // `tick` ""quote"" 'q'
+0123456789
+, 1 ,
+    0123456789,""a\\""  ,
+    ""`tick`""  , 007
+,
+    // " ++ [27880; 37322]%N ++ runes_of_ascii "
+    ""// no comment""]
+: Logon , }	, f32 len @calculatedFrom(
+""{,}"" // c
+) `" ++ [233]%N ++ runes_of_ascii "` , // a // b
+@calculatedFrom( """") @leftPad
+( '\x00') i32 calculatedFrom@lengthOf(
+    Packet)
+    // @lengthOf(
+    `line1
+line2`
+    , @calculatedFrom( ""\" ++ [233]%N ++ runes_of_ascii """	)
+match asx as	As { ""it's"" :_x,""x y""  : calculatedFrom, ""packet"" :
+    Pad
+, } ,  char[] x, char[] matchKey,trueish lengthOf ,@lengthOf(roots	) repeat len // c
+, @lengthOf( crc) repeat
+//
+// " ++ [27880; 37322]%N ++ runes_of_ascii "
+char[]u128 `tab	here`, repeat u64 Header
+    //
+    , }
+")).
+Eval vm_compute in ("<<<M221>>>" ++ check (runes_of_ascii "packet
+matchKey { match Header as chars
+{ [ """ ++ [233]%N ++ runes_of_ascii "t" ++ [233]%N ++ runes_of_ascii """ ,0 ]	: body
+,
+    [
+    42,10 ]
+    :msg_type
+,
+""" ++ [128512]%N ++ runes_of_ascii """
+: options1 ,7 :
+    roots ""\n"" :
+    // c
+    packetx,	} ,
+    zchar[
+0 ]
+A
+@lengthOf(  int )
+, char[] Header `
+` ,// trailing space 
+repeat
+    float { repeat
+o
+    , // `tick` ""quote"" 'q'
+repeat
+int32 x_y_z `
+` , }	,@tag( 0 ) u64 string_ @calculatedFrom(""`tick`"" ) // " ++ [27880; 37322]%N ++ runes_of_ascii "
+`two words` , calculatedFrom // " ++ [27880; 37322]%N ++ runes_of_ascii "
+{ matchKey
+//
 // packet A { u8 x, }
-, }
-    options { }")).
-Eval vm_compute in ("<<<M3639>>>" ++ check (runes_of_ascii "options {
-    StringPrefixLenType = u64;
-    ArrayPrefixLenType = u16;
-    FixedStringPadChar = ' ';
+, // packet A { u8 x, }
+rootA
+, } ,
 }
-packet Logon {
-    i32 msgKind,
-    repeat InOrderid65 {
-        u8 pad0,
+    options // " ++ [128512]%N ++ runes_of_ascii " emoji
+{ chars =	"""" //
+;
+    As = true	; Foo =
+7	; lengthOf =  ""a\\"" }
+
+")).
+Eval vm_compute in ("<<<M1560>>>" ++ check (runes_of_ascii "options {
+    LittleEndian = false;
+    ArrayPrefixLenType = u64;
+    FixedStringPadChar = '0';
+}
+packet Quote {
+    repeat InFlags37 {
+        char[] lastPx,
     },
-    i8 tag7,
-    @leftPad(' ') char[12] x,
-}
-packet Leg {
+    i16 tag7,
     char[] f1,
-    repeat char[5] Px,
-    InQty34 {
-        repeat char[6] Qty,
-        char[7] seqNo,
-        string count,
-    },
-    Logon,
+    zchar[6] Note,
 }
-packet Party {
-    @leftPad('0') char[10] OrderId,
-    string Tail,
-}
-packet Fill {
-    zchar[5] venue,
-    zchar[3] clOrdID,
-    InRef95 {
-        InLastpx25 {
-            u8 pad0,
-        },
-        float64 OrderId,
-        i32 f1,
-        float32 x,
-        char[] seqNo,
-    },
-    repeat string seqNo,
+packet Order {
+    u8 Ref,
+    repeat Quote,
+    repeat string Acct,
 }
 root packet Heartbeat {
-    repeat Leg,
-    u32 seqNo,
-    u16 tag7,
-    u32 Flags @lengthOf(Body),
-    match tag7 as Body {
-        [195, 75] : Party,
-        171 : Fill,
-        78 : Logon,
-        142 : Leg,
+    repeat Quote,
+    @leftPad('0') char[11] OrderId,
+    zchar[8] Ref,
+    u32 Flags,
+    u32 Tail @lengthOf(Body),
+    match Flags as Body {
+        156 : Order,
+        7 : Quote,
     },
-    u32 Note @calculatedFrom(""CRC32""),
 }
 ")).
-Eval vm_compute in ("<<<M3932>>>" ++ check (runes_of_ascii "MetaData metadata {
-    /// triple
-    packetx Packet,
-    // trailing space 
-    chars body,
-    char[] MetaDataX,
-    u32 stringy,
-    float32 packetx `" ++ [28040; 24687; 31867; 22411]%N ++ runes_of_ascii "`,
+Eval vm_compute in ("<<<M2110>>>" ++ check (runes_of_ascii "options {
+    LittleEndian = true;
+    StringPrefixLenType = u16;
+    ArrayPrefixLenType = u64;
 }
 
-options {
-    lengthOf = uint16;
-    pack = '0';
-    charz = char[];
-    u = f64;
-    options1 = float32;
+packet Fill {
 }
 
-root packet charz {
-    repeat uint32 float,
-    stringy,// packet A { u8 x, }
-    uint8x {
-        chars {
-            match Foo as u8x {
-                ""a\\"" : int,
-            },
-            string Z9_ @calculatedFrom(""" ++ [28040; 24687]%N ++ runes_of_ascii """) `// not a comment`,
-            match trueish as MetaDataX {
-                [0, ""CRC32"", 007, 007, 0123456789] : Foo,
-                255 : falsey,
-                007 : _x,
-                255 : Header,
-                007 : lengthOf,
-                ""{,}"" : Header,
-            },
-        },
-        zchar[65535] leftPad `line1
-                line2`,
-        char[007] Z9_ @lengthOf(u8x),
+packet Logon {
+    repeat char[3] Tail,
+    zchar[6] venue,
+    repeat string Side2,
+}
+
+root packet Cancel {
+    char[] Flags,
+    char[] OrderId,
+    zchar[6] msgKind,
+    Fill,
+    char[] Acct,
+    u8 f1,
+    match f1 as Body {
+        188 : Fill,
+        5 : Logon,
     },
+    u32 clOrdID @calculatedFrom(""CRC32""),
 }")).
-Eval vm_compute in ("<<<M1094>>>" ++ check (runes_of_ascii "root
-packet leftPad {match As as
-A {
-00 :i8i8, ""x y"": Packet
-""abc"" :falsey
-// trailing space 
-//x
-,  } , float32 trueish,
-@calculatedFrom( ""1"" ) u64  roots`line1
-line2` // trailing space 
-,
-@tag( 42 //	t
-) string
-int
-    @lengthOf(
-    Header ) , @tag(
-    1 ) @lengthOf( // c
-float) rootA  Z9_,match msg_type as metadata {[ 7 ,	0123456789 ] /// triple
-: uint8x	, [ 255 ]:int ,
-    // @lengthOf(
-    255
-    // trailing space 
-    :  lengthOf , ""a\\""  : u128, ""1"" : // packet A { u8 x, }
-u128
-    , }
-,roots //	t
-int `two words` ,repeat BodyLength asx
-,lengthOf@lengthOf(packetx ) ,@lengthOf(
-a1
-) char[
-    /// triple
-    10
+Eval vm_compute in ("<<<M1887>>>" ++ check (runes_of_ascii "
+
+  root
+    packet// `tick` ""quote"" 'q'
+
+	roots {  @rightPad ( 	 // trailing space 
+'0'
+	) char[	255
+
     ]
-//	t
-//
-x, }
-    options { f32a
-= '0'
-; chars
-    =  ' ';Header= ' ' ; i8i8
-    =zchar[ 007 ]
-; leftPad =
-' '
-    ;
-}packet falsey
-    {	@lengthOf(
-    u8x
-)x@lengthOf(tag
-)
-    // @lengthOf(
-    , }
-")).
-Eval vm_compute in ("<<<M918>>>" ++ check (runes_of_ascii "  packet
-// `tick` ""quote"" 'q'
-//x
-uint8x{zchar[
-    007
-] Header @calculatedFrom( ""a	b"")
-,	}packet i64_{ @lengthOf(
-crc ) /// triple
-string metadata`
-`//	t
-, // trailing space 
-uint8x // " ++ [128512]%N ++ runes_of_ascii " emoji
-{ repeat
-u16
-string_ ,} , // `tick` ""quote"" 'q'
-packetx
-{ zchar[
-    0123456789]calculatedFrom
-@calculatedFrom(
-""" ++ [28040; 24687]%N ++ runes_of_ascii """ ) `crlf
-line`	, tag { zchar[  007 ] tag @calculatedFrom(""1"" )
-, string u ,	repeat
-A
-T
-,
-roots
-@lengthOf( Logon
-    ) ,
-    // `tick` ""quote"" 'q'
-    } , u8x `` , int64 metadata `tab	here` , }
-,
-}  packet rootA{
-@lengthOf( string_) Header A`doc` ,
-match stringy as x {// c
-0123456789: metadata,0 : rootA
-,
-42
-:
-A
-, [ 00 ,""abc"" ]
-:
-T	4294967296 : a1 , // @lengthOf(
-},
-@rightPad
-    (	'0' ) @tag(4294967296 )
-    @tag( 00) char[] Foo @calculatedFrom( ""1"" ) `crlf
-line`, }")).
-Eval vm_compute in ("<<<M638>>>" ++ check (runes_of_ascii "MetaData roots {	charz matchKey //
-`two words`
-    , char[	65535 ] //	t
-T `// not a comment`
-, char[]
-tag , string
-/// triple
-// @lengthOf(
-a1 `two words`
-,
-} root packet stringy
-    // trailing space 
-    { repeat roots {repeat calculatedFrom	len
-// " ++ [128512]%N ++ runes_of_ascii " emoji
-// " ++ [128512]%N ++ runes_of_ascii " emoji
-,
-} ,  @tag( 42
-)  @rightPad(/// triple
-'0' )@tag(
-007
-)  f32 lengthOf @lengthOf( tag ) `crlf
-line`
-,	int32 chars,zchar[ 3
-]
-rootA @calculatedFrom(
-""a\""b"" )// c
-, @rightPad
-( ) @calculatedFrom(""" ++ [128512]%N ++ runes_of_ascii """
-) @tag(	0123456789 ) Foo {char[] u8x	@lengthOf( charz
-    // @lengthOf(
-    ) , A	, } ,
-    match repeatCount as
-body{
-""\n"" :  T, [
-    """ ++ [128512]%N ++ runes_of_ascii """, 255
-// @lengthOf(
-/// triple
-] : lengthOf , } ,
-@calculatedFrom(""x y"" )
-    u8
-packetx
-@calculatedFrom(//x
-""CRC32"" // a // b
-) `tab	here` ,
-    }
-")).
-Eval vm_compute in ("<<<M1204>>>" ++ check (runes_of_ascii "packet
-float {
-match
-asx as len {255
-:metadata
-},char[ 4294967296] x  @lengthOf( lengthOf ),matchKey int
-,} packet  falsey { @tag( 0123456789	) match
-    u128 // a // b
-as
-stringy  {
-    // " ++ [128512]%N ++ runes_of_ascii " emoji
-    0123456789 :
-u128 // packet A { u8 x, }
-[
-3
-,
-    ""CRC32"" ,	7
-// packet A { u8 x, }
-// @lengthOf(
-, 10
-    , 0 ] :o	, 1 /// triple
-:charz // " ++ [128512]%N ++ runes_of_ascii " emoji
-, 0123456789 :
-u ,255 :
-pack
-, } ,
-    }  packet T
-{
-    // " ++ [27880; 37322]%N ++ runes_of_ascii "
-    @lengthOf(
-    /// triple
-    Z9_ ) @rightPad (  '0' ) @calculatedFrom(
-    ""// no comment"" // `tick` ""quote"" 'q'
-)zchar[
-007
-    ] leftPad ,@calculatedFrom(
-""1"" )char[]As
-`two words` ,
-    @leftPad ( '0' ) repeat char[
-    0123456789
-    ]x `// not a comment`, char[ 1
-// " ++ [27880; 37322]%N ++ runes_of_ascii "
-//x
-]_x// " ++ [128512]%N ++ runes_of_ascii " emoji
-, }")).
-Eval vm_compute in ("<<<M1299>>>" ++ check (runes_of_ascii "root packet
-pack { } MetaData falsey  {	char[]A`// not a comment`
-, }  packet uint8x{
-repeat o
-    { u64 string_@calculatedFrom( // " ++ [128512]%N ++ runes_of_ascii " emoji
-""" ++ [233]%N ++ runes_of_ascii "t" ++ [233]%N ++ runes_of_ascii """ ) , }, repeat string_ `" ++ [28040; 24687; 31867; 22411]%N ++ runes_of_ascii "`
-//	t
-// @lengthOf(
-,  repeat u { packetx @lengthOf( len) `doc`,
-}
-,
-@lengthOf(u8x ) float32	MetaDataX
-@calculatedFrom( """ ++ [233]%N ++ runes_of_ascii "t" ++ [233]%N ++ runes_of_ascii """ ) , uint8 MetaDataX `it's`
-    ,
-@rightPad (	'\x00' ) repeat
-    // a // b
-    crc
-{
-    x_y_z
-@lengthOf(As)  `line1
+    T`line1
 line2`
-,i32
-    //	t
-    repeatCount,
-// a // b
-// @lengthOf(
-repeat Pad  { repeat string_ `" ++ [233]%N ++ runes_of_ascii "` , leftPad
-    { char[]
-float , }
-,	}  , }
-    , @calculatedFrom( ""it's""  ) zchar[ 42 ]A @lengthOf( matchKey ) , roots@calculatedFrom( ""CRC32"" ) // @lengthOf(
-`a\`, }
-")).
-Eval vm_compute in ("<<<M1176>>>" ++ check (runes_of_ascii "
-options {leftPad
-    =
-""{,}""f32a = true
-trueish
-    = zchar[ 007]
-    ;	crc
-// " ++ [27880; 37322]%N ++ runes_of_ascii "
-// @lengthOf(
-= ""`tick`"" ;// c
-} //x
-root	packet
-    body { asx @lengthOf(	f32a // `tick` ""quote"" 'q'
-) `` , f64 body @lengthOf(
-int) , zchar[ 255] BodyLength , zchar[ 7	]
-    leftPad
-/// triple
-// packet A { u8 x, }
-`line1
-line2`, @lengthOf(  asx )u128
-    @lengthOf(
-BodyLength )	`// not a comment`
 ,
-    @lengthOf( As )
-char[ 42	] _x
-@lengthOf(  i8i8)`line1
-line2` , char[ 1 //	t
-]
-    // a // b
-    options1 @calculatedFrom(""packet"" )`say ""hi""`
-, }
-options
-{ leftPad= 007
-;
-charz =false repeatCount =
-    ""// no comment"" u// a // b
-= 0123456789 }
-")).
-Eval vm_compute in ("<<<M1381>>>" ++ check (runes_of_ascii "packet metadata {//	t
-leftPad  { u64 stringy , }
-,
-} packet
-matchKey
-{  repeat u64 x_y_z, }MetaData
-f32a{
-} root packet  As  {
-@lengthOf(	Logon  ) float64
-A , @leftPad  (// " ++ [27880; 37322]%N ++ runes_of_ascii "
-'0' )u32
-    i64_ /// triple
-`// not a comment`/// triple
-, repeat i8
-    chars ,@lengthOf( x_y_z
-)	Foo x
-, stringy , chars @calculatedFrom( ""CRC32"" ) ,
-    @tag(
-0 ) int64 pack `
-` ,
-@rightPad ( )
-@calculatedFrom(
-""abc"" )
-@tag(// packet A { u8 x, }
-0 ) char[	0 ] msg_type // a // b
-,// " ++ [27880; 37322]%N ++ runes_of_ascii "
-tag {
-    char[	007 ]	zchar@lengthOf(
-    chars) , As@lengthOf(	charz )
-    `doc` , body `u8 x,`	,
-    } ,Foo
-    `two words`
-    ,
-}
-")).
-Eval vm_compute in ("<<<M1113>>>" ++ check (runes_of_ascii "packet  metadata { f64 float
-    //
-    `crlf
-line` , i32 asx @calculatedFrom(
-""`tick`"" ) ,
-/// triple
-// c
-A ,}
-root packet zchar  {
-// trailing space 
-// packet A { u8 x, }
-match matchKey
-    as
-    roots//x
-{
-""a\""b"" :	zchar ,""`tick`""
-:
-    int
-    ,""\n"" : packetx ,
-0// " ++ [27880; 37322]%N ++ runes_of_ascii "
-: Z9_ , }, int32 a1
-, @tag(42 ) // " ++ [128512]%N ++ runes_of_ascii " emoji
-@rightPad ('0') @tag( 65535 )char[ 00 ] calculatedFrom
-,packetx@lengthOf( options1 )
-    , }
-root
-packet body{ match
-    f32a as msg_type {[ 42 ]: matchKey // a // b
-, 3 :
-rootA
-    // @lengthOf(
-    , [
-    // c
-    00]
-    : packetx 10 : falsey	, }	,}options {
-}
-")).
-Eval vm_compute in ("<<<M4123>>>" ++ check (runes_of_ascii "MetaData uint8x {
-    char[7] Foo,
-    float64 repeatCount,/// triple
-    a1 uint8x `// not a comment`,
-}
+	}
 
-packet Header {
-    @calculatedFrom(""packet"")
-    repeat calculatedFrom charz,
-}
-
-packet rootA {
-    @calculatedFrom(""abc"")
-    @calculatedFrom("""")
-    @lengthOf(asx)
-    repeat repeatCount,
-    repeat o {
-        crc options1,
-        zchar[7] A,
-        Z9_ @lengthOf(Pad),
-        calculatedFrom @calculatedFrom(""a\""b""),
-    },
-    repeat a1 Foo `{ , }`,
-    charz,
-}
-
-options {
-    body = """ ++ [28040; 24687]%N ++ runes_of_ascii """;
-    packetx = 0
-}
-
-MetaData _x {
-    int16 crc,
-}")).
-Eval vm_compute in ("<<<M3611>>>" ++ check (runes_of_ascii "// top
 packet
-    // c0
-Logon // c1
-{ string // c3
-user , // c5
-} root // c7
-packet // c8
-Frame { u8 K // c12
-,
-    // c13
-match
-    // c14
-K // c15a
-  // c15b
-as
-    // c16
-Body // c17
-{ // c18a
-  // c18b
-1 :
-    // c20
-Logon // c21a
-  // c21b
-, // c22
-2 // c23
-: Logout
-    // c25
-, // c26
-} // c27a
-  // c27b
-, // c28a
-  // c28b
-Tail // c29a
-  // c29b
-, // c30
-} packet
-    // c32
-Logout // c33
-{ // c34a
-  // c34b
-u16
-    // c35
-reason // c36
-, // c37a
-  // c37b
-} packet Tail // c40
-{
-    // c41
-u32 // c42
-crc
-    // c43
-, } ")).
-Eval vm_compute in ("<<<M4430>>>" ++ check (runes_of_ascii "root 
-packet A
+	msg_type{
 
-{// packet A { u8 x, }
-	  char[]
-msg_type `two words` ,// a // b
-@calculatedFrom(""abc"")
-    @leftPad ( 
-'\x00' )
+    Logon{  f64 x_y_z  ``
 
-    @calculatedFrom(
-    ""x y"" ) repeat
-    //x
-		// @lengthOf(
-	int64
-chars  ,  zchar[	1	]
+,  } ,i8 
+pack
 
-    _x
-@calculatedFrom(  ""1"" )
+    @lengthOf( stringy
 
-    `doc`
-	, 
-        // c
+),
 
-	//x
-} packet
-	stringy{ int8 calculatedFrom 
-@lengthOf(
-_x
-	) `line1
-line2`
-
-    ,
 @tag(
 
-    42 
-)char[
-10
-]  //
-  Logon
+4294967296	)
 
-    @lengthOf(  roots  )`" ++ [233]%N ++ runes_of_ascii "` // " ++ [128512]%N ++ runes_of_ascii " emoji
-
-,
-	i32  //
-    options1 
-,
-    i16	x_y_z , }
-")).
-Eval vm_compute in ("<<<M3689>>>" ++ check (runes_of_ascii "
-
-  // c
-  options
-    {// " ++ [27880; 37322]%N ++ runes_of_ascii "
-	MetaDataX =
-	0 
-}
-
-    root
-
-    packet
-	Z9_ {	char[] packetx  `doc`,
-BodyLength  zchar
-    ,
-
-    float32	BodyLength
-
-    , @calculatedFrom( ""\" ++ [233]%N ++ runes_of_ascii """ 
-)match
-
-    trueish as// a // b
-  T
-
-{
-255:uint8x // @lengthOf(
-	,  // packet A { u8 x, }
-	""" ++ [233]%N ++ runes_of_ascii "t" ++ [233]%N ++ runes_of_ascii """ :	charz,
-	""a\\""
-
-    :
-falsey
-
-""{,}""
-
-:MetaDataX ,
-}
-
-,	// trailing space 
-	}
-    options	{
-    } options{
-msg_type = 42
-
-pack =true repeatCount
-    =  4294967296 ; leftPad= ""it's""	// " ++ [27880; 37322]%N ++ runes_of_ascii "
-	; 
-}
-
-")).
-Eval vm_compute in ("<<<M3953>>>" ++ check (runes_of_ascii "MetaData
-
-f32a
-
-    {  char[] trueish ,	float64
-
-    u128 
-`" ++ [28040; 24687; 31867; 22411]%N ++ runes_of_ascii "` ,
-        //	t
-	tag	// a // b
-  f32a
-,
-	matchKey// " ++ [128512]%N ++ runes_of_ascii " emoji
-    	int
-    `two words`, i8 pack `a\`  , }
-packet asx
+char[] msg_type ,
+	stringy  // a // b
 	{
+match x
+as
 
-    int8 Header
-`say ""hi""`
-	,
-    }MetaData
-    roots { i32 tag
+    roots {	1 : options1,
 
-`" ++ [233]%N ++ runes_of_ascii "`	, crc
-	Z9_  ,T
+    ""it's""
 
+:	BodyLength  , }
+,}	, } ")).
+Eval vm_compute in ("<<<M2011>>>" ++ check (runes_of_ascii "packet 
+Z9_  {
+} packet
 T
-`
-` ,//
-  int32 matchKey ,  matchKey
-Header`line1
-line2`
-    // " ++ [27880; 37322]%N ++ runes_of_ascii "
-// trailing space 
-	,
-    // `tick` ""quote"" 'q'
+{ repeat
+charz{ match
+	float
+    as	// " ++ [128512]%N ++ runes_of_ascii " emoji
 
-  //x
-char[	0 ]
-	MetaDataX
-,
-// c
-	// @lengthOf(
-
-  } 	 // " ++ [27880; 37322]%N ++ runes_of_ascii "
-")).
-Eval vm_compute in ("<<<M1000>>>" ++ check (runes_of_ascii "MetaData roots{ }MetaData x_y_z// trailing space 
-{
-zchar[	42 ]
-    i8i8
-, options1 _x`doc` ,i8 zchar
-    , uint16 Pad`u8 x,`,	} packet MetaDataX{
-    zchar[
-4294967296 ] rootA  ,
-//
-//x
-}	packet
-    T { //x
-@lengthOf( len	) @tag( 42) int64 float `{ , }` // c
-, @lengthOf(i64_)As @lengthOf(falsey
-    // a // b
-    ) ,
-int64 Pad	@lengthOf( _x)
-`it's` , @lengthOf( len
-    ) char[
-255
-]Pad`" ++ [28040; 24687; 31867; 22411]%N ++ runes_of_ascii "`, }
-    MetaData Foo
-{// " ++ [27880; 37322]%N ++ runes_of_ascii "
-char[	1 ] As ,}
-")).
-Eval vm_compute in ("<<<M1135>>>" ++ check (runes_of_ascii "options{
-    //	t
-    o=
-float64 ; rootA =""a	b"" tag =
-    // a // b
-    true ;
-BodyLength = //	t
-""\" ++ [233]%N ++ runes_of_ascii """
-    ;
-} packet leftPad	{
-    u8x
-    //	t
-    roots
-`{ , }` // " ++ [27880; 37322]%N ++ runes_of_ascii "
-, @calculatedFrom( ""// no comment"" ) i64_
-a1,
-// packet A { u8 x, }
-/// triple
-f64
-    tag
-, }MetaData charz { string msg_type ,  roots x_y_z	, Z9_ chars`tab	here`
-    , packetx
-    u128 `// not a comment` , // c
-pack a1 ,} packet
-falsey {
-uint32 Foo ,
-}
-")).
-Eval vm_compute in ("<<<M558>>>" ++ check (runes_of_ascii "packet crc {
-// c
-//x
-@tag( 0 )
-    float64
-    falsey @calculatedFrom( ""packet""
-)
-, match x as matchKey
-    { 42: options1 0:  crc  ,  007 : u128 ,	} ,
-@calculatedFrom(""" ++ [233]%N ++ runes_of_ascii "t" ++ [233]%N ++ runes_of_ascii """ )repeat i8i8{ zchar[4294967296] x @lengthOf( As
-) ,
-repeat int32 a1
-,i32 x`" ++ [28040; 24687; 31867; 22411]%N ++ runes_of_ascii "` , },
-    int @lengthOf( metadata ) ,	repeat
-trueish, uint16 int , x_y_z @lengthOf( roots
-// `tick` ""quote"" 'q'
-//
-)`" ++ [28040; 24687; 31867; 22411]%N ++ runes_of_ascii "` , }
-// packet A { u8 x, }
-")).
-Eval vm_compute in ("<<<M207>>>" ++ check (runes_of_ascii "MetaData
-T { Foo  lengthOf , string
-    //x
-    packetx
-    `// not a comment` , zchar[
-    //	t
-    0] metadata
-//x
-// `tick` ""quote"" 'q'
-`crlf
-line` ,
-x string_
-`line1
-line2` , } packet repeatCount {	char[ // `tick` ""quote"" 'q'
-255 ]
-A @calculatedFrom(""a\\"" )
-,float32
-    BodyLength @lengthOf(	_x )
-// c
-//
-`doc` , char[] trueish
-    // " ++ [128512]%N ++ runes_of_ascii " emoji
-    @calculatedFrom( ""packet"")
-    ,}
-")).
-Eval vm_compute in ("<<<M4052>>>" ++ check (runes_of_ascii "MetaData  u	{
-}
-
-    options {  
-  // c
-  	// @lengthOf(@x
-    	float
-=int8
-;  rootA =
-false
-; As=
-
-int16// `tick` ""quote"" 'q'
-  repeatCount 
-    // trailing space 
-    	=
-
-    int16
-;
-u8x
-
-    =
-        //	t
-	'\x00';
-}  options
-{
-repeatCount =0
-u128 
-        //
-    	=  false;
-	i64_
-    // trailing space 
-
-// `tick` ""quote"" 'q'
-		= '0'
-    ;  //	t
-	  } ")).
-Eval vm_compute in ("<<<M1263>>>" ++ check (runes_of_ascii "packet	Z9_
-{
-    @lengthOf(pack )calculatedFrom //	t
-u128 , /// triple
-@tag( 4294967296 )
-u64 options1 ,	uint16	uint8x@calculatedFrom(
-""\n""  ), //
-} packet	pack{ leftPad
-MetaDataX , @leftPad
-( )@lengthOf( packetx	)
-repeat lengthOf { f64
-repeatCount
-    @calculatedFrom( ""a\""b"" ) `tab	here` ,
-}, repeat pack body ,} options {
-u128
-//
-//	t
-=true ; }
-")).
-Eval vm_compute in ("<<<M4309>>>" ++ check (runes_of_ascii "root packet MetaDataX {
-}
-
-options {
-    int = false
-    //	t
-}
-
-packet falsey {
-    string tag `say ""hi""`,
-    leftPad stringy,
-    @calculatedFrom(""a	b"")
-    As @calculatedFrom(""packet"") `line1
-        line2`,
-    A @lengthOf(body),
-    @calculatedFrom(""" ++ [28040; 24687]%N ++ runes_of_ascii """)
-    calculatedFrom,
-    calculatedFrom @lengthOf(calculatedFrom) `tab	here`,
-}")).
-Eval vm_compute in ("<<<M586>>>" ++ check (runes_of_ascii "options{	i8i8 = 65535
-; asx/// triple
-=
-float64 charz	= ""`tick`"" As//
-=
-    7 ;
-    i8i8 = ""\n"" }
-// `tick` ""quote"" 'q'
-// " ++ [27880; 37322]%N ++ runes_of_ascii "
-packet u{ } options	{
-// packet A { u8 x, }
-/// triple
-f32a =10 chars // trailing space 
-=
-""\" ++ [233]%N ++ runes_of_ascii """ x =uint8 ;
-metadata =42 ;  lengthOf =true ;}
-    options {
-// " ++ [27880; 37322]%N ++ runes_of_ascii "
-// " ++ [128512]%N ++ runes_of_ascii " emoji
-BodyLength = true
-    ; }")).
-Eval vm_compute in ("<<<M2011>>>" ++ check (runes_of_ascii "MetaData
-    u { }  options {
-// c
-// @lengthOf(
-float = int8 ;rootA =false ; As =	int16 // `tick` ""quote"" 'q'
-repeatCount
-    // trailing space 
-    =
-    int16
-; u8x =
-    //	t
-    '\x00' ; } options	{
-    repeatCount
-= 0
-u128 u128
-    //
-    = false ; i64_
-// trailing space 
-// `tick` ""quote"" 'q'
-= '0' ; //	t
-}
-")).
-Eval vm_compute in ("<<<M1946>>>" ++ check (runes_of_ascii "MetaData
-    u { }  options {
-// c
-// @lengthOf(
-float = int8 ;rootA =false ; As =	int16 // `tick` ""quote"" 'q'
-repeatCount
-    // trailing space 
-    = =
-    int16
-; u8x =
-    //	t
-    '\x00' ; } options	{
-    repeatCount
-= 0
-u128
-    //
-    = false ; i64_
-// trailing space 
-// `tick` ""quote"" 'q'
-= '0' ; //	t
-}
-")).
-Eval vm_compute in ("<<<M2062>>>" ++ check (runes_of_ascii "MetaData
-    u { }  options {
-// c
-// @lengthOf(
-float = int8 ;rootA =false ; As =	int16 // `tick` ""quote"" 'q|'
-repeatCount
-    // trailing space 
-    =
-    int16
-; u8x =
-    //	t
-    '\x00' ; } options	{
-    repeatCount
-= 0
-u128
-    //
-    = false ; i64_
-// trailing space 
-// `tick` ""quote"" 'q'
-= '0' ; //	t
-}
-")).
-Eval vm_compute in ("<<<M1968>>>" ++ check (runes_of_ascii "MetaData
-    u { }  options {
-// c
-// @lengthOf(
-float = int8 ;rootA =false ; As =	int16 // `tick` ""quote"" 'q'
-repeatCount
-    // trailing space 
-    =
-    int16
-; u8x {
-    //	t
-    '\x00' ; } options	{
-    repeatCount
-= 0
-u128
-    //
-    = false ; i64_
-// trailing space 
-// `tick` ""quote"" 'q'
-= '0' ; //	t
-}
-")).
-Eval vm_compute in ("<<<M1920>>>" ++ check (runes_of_ascii "MetaData
-    u { }  options {
-// c
-// @lengthOf(
-float = int8 ;rootA =false  As =	int16 // `tick` ""quote"" 'q'
-repeatCount
-    // trailing space 
-    =
-    int16
-; u8x =
-    //	t
-    '\x00' ; } options	{
-    repeatCount
-= 0
-u128
-    //
-    = false ; i64_
-// trailing space 
-// `tick` ""quote"" 'q'
-= '0' ; //	t
-}
-")).
-Eval vm_compute in ("<<<M2010>>>" ++ check (runes_of_ascii "MetaData
-    u { }  options {
-// c
-// @lengthOf(
-float = int8 ;rootA =false ; As =	int16 // `tick` ""quote"" 'q'
-repeatCount
-    // trailing space 
-    =
-    int16
-; u8x =
-    //	t
-    '\x00' ; } options	{
-    repeatCount
-= 0
-
-    //
-    = false ; i64_
-// trailing space 
-// `tick` ""quote"" 'q'
-= '0' ; //	t
-}
-")).
-Eval vm_compute in ("<<<M1940>>>" ++ check (runes_of_ascii "MetaData
-    u { }  options {
-// c
-// @lengthOf(
-float = int8 ;rootA =false ; As =	int16 // `tick` ""quote"" 'q'
-
-    // trailing space 
-    =
-    int16
-; u8x =
-    //	t
-    '\x00' ; } options	{
-    repeatCount
-= 0
-u128
-    //
-    = false ; i64_
-// trailing space 
-// `tick` ""quote"" 'q'
-= '0' ; //	t
-}
-")).
-Eval vm_compute in ("<<<M3664>>>" ++ check (runes_of_ascii "  options { LittleEndian=
-
-    true
-    ;
-
-    }packet
-
-Logon
-{	u8 x	,  string 
-user
-
-,
-    } packet
-
-    Logout
-{u16
-	reason,
-
-    } packet	Empty
-{ } root 
-packet
-	Frame
-    {
-    u16 MsgType, u16
-
-    BodyLen @lengthOf( 
-Body
-) , u8 
-flags ,  Logon Body	, u32
-trailer
-
-    ,
-} ")).
-Eval vm_compute in ("<<<M3992>>>" ++ check (runes_of_ascii "packet roots {
-    @tag(255)
-    zchar[00] lengthOf `" ++ [233]%N ++ runes_of_ascii "`,
-    zchar[7] u `say ""hi""`,
-}
-
-options {
-}
-
-options {
-    calculatedFrom = 4294967296// " ++ [128512]%N ++ runes_of_ascii " emoji
-    i64_ = '\x00';
-    i64_ = ""abc"";
-}
-
-MetaData roots {
-    char[] BodyLength `two words`,
-    i16 Header `// not a comment`,
-}")).
-Eval vm_compute in ("<<<M1543>>>" ++ check (runes_of_ascii "packet
-//	t
-// trailing space 
-_x {
-// packet A { u8 x, }
-// c
-char[
-3
-    ] u8x @lengthOf(
-u8x ) , @calculatedFrom( @calculatedFrom(""" ++ [128512]%N ++ runes_of_ascii """ // @lengthOf(
-)
-i16	Foo
-@lengthOf(	string_
-    )`doc`	, repeat	i64 metadata , @lengthOf( string_
-) i8 // c
-u  `line1
-line2`	,
-}
-")).
-Eval vm_compute in ("<<<M1133>>>" ++ check (runes_of_ascii "options {// " ++ [27880; 37322]%N ++ runes_of_ascii "
-u= i16;
-a1
-=	' ' ; a1
-// `tick` ""quote"" 'q'
-// @lengthOf(
-=// " ++ [128512]%N ++ runes_of_ascii " emoji
-'0' leftPad= true} // trailing space 
-packet charz { @calculatedFrom( ""a	b"" ) @leftPad ( )  @lengthOf(// " ++ [128512]%N ++ runes_of_ascii " emoji
-chars
-    /// triple
-    ) chars { i16 x, // " ++ [128512]%N ++ runes_of_ascii " emoji
-} ,}
-
-")).
-Eval vm_compute in ("<<<M1558>>>" ++ check (runes_of_ascii "packet
-//	t
-// trailing space 
-_x {
-// packet A { u8 x, }
-// c
-char[
-3
-    ] u8x @lengthOf(
-u8x ) , @calculatedFrom(""" ++ [128512]%N ++ runes_of_ascii """ // @lengthOf(
-)
-i16 i16	Foo
-@lengthOf(	string_
-    )`doc`	, repeat	i64 metadata , @lengthOf( string_
-) i8 // c
-u  `line1
-line2`	,
-}
-")).
-Eval vm_compute in ("<<<M1657>>>" ++ check (runes_of_ascii "packet
-//	t
-// trailing space 
-_x {
-// packet A { u8 x, }
-// c
-char[
-3
-    ] u8x @lengthOf(
-u8x ) , @calculatedFrom(""" ++ [128512]%N ++ runes_of_ascii """ // @lengthOf(
-)
-i16	Foo
-@lengthOf(	string_
-    )`doc`	? , repeat	i64 metadata , @lengthOf( string_
-) i8 // c
-u  `line1
-line2`	,
-}
-")).
-Eval vm_compute in ("<<<M1524>>>" ++ check (runes_of_ascii "packet
-//	t
-// trailing space 
-_x {
-// packet A { u8 x, }
-// c
-char[
-3
-    ] u8x u8x
-@lengthOf( ) , @calculatedFrom(""" ++ [128512]%N ++ runes_of_ascii """ // @lengthOf(
-)
-i16	Foo
-@lengthOf(	string_
-    )`doc`	, repeat	i64 metadata , @lengthOf( string_
-) i8 // c
-u  `line1
-line2`	,
-}
-")).
-Eval vm_compute in ("<<<M745>>>" ++ check (runes_of_ascii "packet calculatedFrom { match
-    Logon as	u128 { [ 1 ,
-""// no comment"" ] : u8x ""`tick`"" : Header ,
-    ""`tick`"":
-    BodyLength ""it's""
-// a // b
-// packet A { u8 x, }
-: zchar
-} // " ++ [27880; 37322]%N ++ runes_of_ascii "
-, // `tick` ""quote"" 'q'
-char metadata @calculatedFrom( ""a\\"" ), }
-")).
-Eval vm_compute in ("<<<M1650>>>" ++ check (runes_of_ascii "packet
-//	t
-// trailing space 
-_x {
-// packet A { u8 x, }
-// c
-char[
-3
-    ] u8x @lengthOf(
-u8x ) , @calculatedFrom(""" ++ [128512]%N ++ runes_of_ascii """ // @lengthOf(
-)
-i16	Foo
-@lengthOf(	string_
-    )`doc`	, repeat	i64 metadata , @lengthOf( string_
-) i8 // c
-u  `line1
-line2`	,")).
-Eval vm_compute in ("<<<M1261>>>" ++ check (runes_of_ascii "options
-{  trueish  = f32
-;
-    i8i8 = false BodyLength  =
-// " ++ [27880; 37322]%N ++ runes_of_ascii "
-//	t
-float64
-stringy =
-string;Z9_= '\x00' } MetaData falsey { pack
-rootA,
-char[ 7]
-x_y_z `" ++ [233]%N ++ runes_of_ascii "` , uint32
-    string_ ,
-float64 //	t
-lengthOf// trailing space 
-,
-int32	u , }
-")).
-Eval vm_compute in ("<<<M361>>>" ++ check (runes_of_ascii "root
-packet
-f32a {
-trueish
-    falsey
-, tag , repeat
-    // trailing space 
-    Pad{ u32
-    i8i8 @calculatedFrom(""x y""
-    )
-, } ,@calculatedFrom( ""// no comment""  )@lengthOf( calculatedFrom
-    ) @tag(	65535)  string T,
-    }
-
-")).
-Eval vm_compute in ("<<<M2009>>>" ++ check (runes_of_ascii "MetaData
-    u { }  options {
-// c
-// @lengthOf(
-float = int8 ;rootA =false ; As =	int16 // `tick` ""quote"" 'q'
-repeatCount
-    // trailing space 
-    =
-    int16
-; u8x =
-    //	t
-    '\x00' ; } options	{
-    repeatCount
-=")).
-Eval vm_compute in ("<<<M4383>>>" ++ check (runes_of_ascii "root packet rootA {
-}
-
-root packet _x {
-    i64_,// a // b
-}
-
-MetaData options1 {
-    // `tick` ""quote"" 'q'
-    a1 float `crlf
-        line`,
-    u8x falsey `" ++ [233]%N ++ runes_of_ascii "`,
-    f32a MetaDataX,
-    int64 u8x,
-}
-
-packet f32a {
-}")).
-Eval vm_compute in ("<<<M1742>>>" ++ check (runes_of_ascii "options { trueish = ""`tick`"" ; string_= """ ++ [233]%N ++ runes_of_ascii "t" ++ [233]%N ++ runes_of_ascii """
-    // c
-    } root
-    packet body { stringy stringy @calculatedFrom(
-""a	b"" ) `line1
-line2` , }
-packet Logon {
-    @leftPad(
-    ' ' ) //	t
-u16 string_ `u8 x,` ,
-}
-")).
-Eval vm_compute in ("<<<M1769>>>" ++ check (runes_of_ascii "options { trueish = ""`tick`"" ; string_= """ ++ [233]%N ++ runes_of_ascii "t" ++ [233]%N ++ runes_of_ascii """
-    // c
-    } root
-    packet body { stringy @calculatedFrom(
-""a	b"" ) `line1
-line2` char[ }
-packet Logon {
-    @leftPad(
-    ' ' ) //	t
-u16 string_ `u8 x,` ,
-}
-")).
-Eval vm_compute in ("<<<M1844>>>" ++ check (runes_of_ascii "options { trueish = ""`tick`"" ; string_= """ ++ [233]%N ++ runes_of_ascii "t" ++ [233]%N ++ runes_of_ascii """
-    // c
-    } root
-    packet body { stringy @calculatedFrom(
-""a	b"" ) `line1
-line2` , }
-packet Logon {
-    @leftPad(
-    ' ' ) //	t
-u16 string_ `u8 x,` ,
-''}
-")).
-Eval vm_compute in ("<<<M1723>>>" ++ check (runes_of_ascii "options { trueish = ""`tick`"" ; string_= """ ++ [233]%N ++ runes_of_ascii "t" ++ [233]%N ++ runes_of_ascii """
-    // c
-    } packet
-    root body { stringy @calculatedFrom(
-""a	b"" ) `line1
-line2` , }
-packet Logon {
-    @leftPad(
-    ' ' ) //	t
-u16 string_ `u8 x,` ,
-}
-")).
-Eval vm_compute in ("<<<M1686>>>" ++ check (runes_of_ascii "options { trueish  ""`tick`"" ; string_= """ ++ [233]%N ++ runes_of_ascii "t" ++ [233]%N ++ runes_of_ascii """
-    // c
-    } root
-    packet body { stringy @calculatedFrom(
-""a	b"" ) `line1
-line2` , }
-packet Logon {
-    @leftPad(
-    ' ' ) //	t
-u16 string_ `u8 x,` ,
-}
-")).
-Eval vm_compute in ("<<<M1711>>>" ++ check (runes_of_ascii "options { trueish = ""`tick`"" ; string_= 
-    // c
-    } root
-    packet body { stringy @calculatedFrom(
-""a	b"" ) `line1
-line2` , }
-packet Logon {
-    @leftPad(
-    ' ' ) //	t
-u16 string_ `u8 x,` ,
-}
-")).
-Eval vm_compute in ("<<<M914>>>" ++ check (runes_of_ascii "/// triple
-options {
-    // packet A { u8 x, }
-    Foo = 00 ; } root packet	string_ {u32 falsey	@calculatedFrom( ""x y"" )
-`u8 x,`	,} root packet // `tick` ""quote"" 'q'
-T { } // `tick` ""quote"" 'q'")).
-Eval vm_compute in ("<<<M389>>>" ++ check (runes_of_ascii "options
-{ u128// packet A { u8 x, }
-=
-    ""x y""
-    } packet // a // b
-rootA// @lengthOf(
-{
-    // " ++ [27880; 37322]%N ++ runes_of_ascii "
-    }packet metadata {@tag(007
-    // " ++ [128512]%N ++ runes_of_ascii " emoji
-    )
-repeat u8
-A
-`// not a comment`, }
-")).
-Eval vm_compute in ("<<<M762>>>" ++ check (runes_of_ascii "packet Pad // `tick` ""quote"" 'q'
-{ }
-root
-    packet  f32a { // c
-@calculatedFrom( ""it's"" )@tag( 255 ) match roots as trueish {
-7: tag  ,
-    } ,
-repeat zchar[0
-]  repeatCount
-, }
-")).
-Eval vm_compute in ("<<<M545>>>" ++ check (runes_of_ascii "root packet Z9_ { repeatCount
-    `a\`
-,char[ 255 ]Pad`" ++ [28040; 24687; 31867; 22411]%N ++ runes_of_ascii "`
-    // " ++ [27880; 37322]%N ++ runes_of_ascii "
-    ,  char[ // c
-0
-] calculatedFrom `it's` , MetaDataX msg_type`line1
-line2`, }
-// packet A { u8 x, }
-")).
-Eval vm_compute in ("<<<M329>>>" ++ check (runes_of_ascii "packet
-pack
-    { pack calculatedFrom, len, u16	T,
-@lengthOf( trueish) repeat
-leftPad ,
-@calculatedFrom( """ ++ [233]%N ++ runes_of_ascii "t" ++ [233]%N ++ runes_of_ascii """	) @rightPad	( '0' ) f64 a1,repeat
-trueish Header , } 	 ")).
-Eval vm_compute in ("<<<M250>>>" ++ check (runes_of_ascii "packet tag
-{@rightPad( )	zchar[ 00
-    //x
-    ] //x
-MetaDataX `" ++ [233]%N ++ runes_of_ascii "` ,
-    float32 Header `say ""hi""`
-// " ++ [128512]%N ++ runes_of_ascii " emoji
-// `tick` ""quote"" 'q'
-, } MetaData
-T{int lengthOf  ,}")).
-Eval vm_compute in ("<<<M2204>>>" ++ check (runes_of_ascii "options{
-_x
-= true
-} options
-{ o	= /// triple
-false
-    ; chars
-= ""\n"" } root packet	Pad
-/// triple@leftpad
-// packet A { u8 x, }
-{	chars
-    // a // b
-    ,}")).
-Eval vm_compute in ("<<<M2366>>>" ++ check (runes_of_ascii "// c
-packet x { @lengthOf( metadata ) repeat lengthOf
-,a1 a1{
-trueish	,// c
-repeat//	t
-MetaDataX , } , zchar[
-    42	] rootA // `tick` ""quote"" 'q'
-,
-    }
-")).
-Eval vm_compute in ("<<<M2142>>>" ++ check (runes_of_ascii "options{
-_x
-= true
-} options
-{ o	= /// triple
-false
-    ; chars
-root ""\n"" } root packet	Pad
-/// triple
-// packet A { u8 x, }
-{	chars
-    // a // b
-    ,}")).
-Eval vm_compute in ("<<<M2311>>>" ++ check (runes_of_ascii "// c
-packet x { @lengthOf( metadata ) repeat lengthOf
-,a1{
-trueish	,// c
-repeat//	t
-MetaDataX , } , 42
-    zchar[	] rootA // `tick` ""quote"" 'q'
-,
-    }
-")).
-Eval vm_compute in ("<<<M2339>>>" ++ check (runes_of_ascii "// c
-packet x { @lengthOf( metadata ) repeat lengthOf
-,a1{
-trueish	,// c
-repeat//	t
-MetaDataX , }  zchar[
-    42	] rootA // `tick` ""quote"" 'q'
-,
-    }
-")).
-Eval vm_compute in ("<<<M2151>>>" ++ check (runes_of_ascii "options{
-_x
-= true
-} options
-{ o	= /// triple
-false
-    ; chars
-= ""\n"" root } packet	Pad
-/// triple
-// packet A { u8 x, }
-{	chars
-    // a // b
-    ,}")).
-Eval vm_compute in ("<<<M2184>>>" ++ check (runes_of_ascii "options{
-_x
-= true
-} options
-{ o	= /// triple
-false
-    ; chars
-= ""\n"" } root packet	Pad
-/// triple
-// packet A { u8 x, }
-{	chars
-    // a // b
-    ,")).
-Eval vm_compute in ("<<<M2144>>>" ++ check (runes_of_ascii "options{
-_x
-= true
-} options
-{ o	= /// triple
-false
-    ; chars
-=  } root packet	Pad
-/// triple
-// packet A { u8 x, }
-{	chars
-    // a // b
-    ,}")).
-Eval vm_compute in ("<<<M130>>>" ++ check (runes_of_ascii "  packet x_y_z	{ @tag( // c
+  stringy	{
 00
-//x
-// packet A { u8 x, }
-)
-@tag(// " ++ [27880; 37322]%N ++ runes_of_ascii "
-7 ) @leftPad ( ) int16 _x @lengthOf( u ) `it's` // `tick` ""quote"" 'q'
-, }
-")).
-Eval vm_compute in ("<<<M3916>>>" ++ check (runes_of_ascii "packet
+:f32a
 
-    A
+    [  00
+	    //x
+	,
+00	,  ""a\\"" 
+      // packet A { u8 x, }
+// a // b
+    	,
+0 , 
+7 ,
+
+    0
+	] :
+
+As  ,
+    } 
+, //	t
+	  uint32 asx
+	,  
+  //
+/// triple
+	repeat u8x
+	{
+	repeat 
+	//x
+    //
+    u8 
+string_
+
+,} ,
+
+},
+    }")).
+Eval vm_compute in ("<<<M1505>>>" ++ check (runes_of_ascii "packet
+A 
 {
+u8
+    a
+
+,
+} 
+packet
+
+    B { u16 b	,
+} packet
+	C
+{
+u32
+c	, 
+}
+root	packet	M
+{ u16
+    Kc
+,
+u16  Kb
+, u16
+Ka , match
+	Kc as
+    X{
+	9
+:
+
+A ,10
+:
+
+B  ,	}
+, 
+match
+
+Kb as Y {2 
+:
+C ,
+
+    1:	A
+    ,} , match
+	Ka  as
+Z
+
+    {
+1  :
+B,  } 
+,
+
+A,  B	,
+C 
+,
+
+    }
+")).
+Eval vm_compute in ("<<<M504>>>" ++ check (runes_of_ascii "root packet tag { }  packet packet MetaDataX{char[007	]
+// c
+/// triple
+asx  @calculatedFrom( ""a\""b""
+) `say ""hi""`// " ++ [27880; 37322]%N ++ runes_of_ascii "
+,  @tag(4294967296 )
+    char[1//x
+] packetx @calculatedFrom(""a\""b""
+    ) ,
+// " ++ [128512]%N ++ runes_of_ascii " emoji
+// a // b
+@calculatedFrom(""" ++ [233]%N ++ runes_of_ascii "t" ++ [233]%N ++ runes_of_ascii """  ) repeat pack // " ++ [27880; 37322]%N ++ runes_of_ascii "
+,
+    } // c")).
+Eval vm_compute in ("<<<M658>>>" ++ check (runes_of_ascii "root packet tag { }  packet MetaDataX{char[007	]
+// c
+/// triple
+asx  @calculatedFrom( ""a\""b""
+) `say ""hi""`// " ++ [27880; 37322]%N ++ runes_of_ascii "
+,  @tag(4294967296 )
+    char[1//x
+] packetx @calculatedFrom(""a\""b""
+    ) ,
+// " ++ [128512]%N ++ runes_of_ascii " emoji
+// a // b
+@calculate'1'dFrom(""" ++ [233]%N ++ runes_of_ascii "t" ++ [233]%N ++ runes_of_ascii """  ) repeat pack // " ++ [27880; 37322]%N ++ runes_of_ascii "
+,
+    } // c")).
+Eval vm_compute in ("<<<M585>>>" ++ check (runes_of_ascii "root packet tag { }  packet MetaDataX{char[007	]
+// c
+/// triple
+asx  @calculatedFrom( ""a\""b""
+) `say ""hi""`// " ++ [27880; 37322]%N ++ runes_of_ascii "
+,  @tag(4294967296 )
+    char[ ]//x
+1 packetx @calculatedFrom(""a\""b""
+    ) ,
+// " ++ [128512]%N ++ runes_of_ascii " emoji
+// a // b
+@calculatedFrom(""" ++ [233]%N ++ runes_of_ascii "t" ++ [233]%N ++ runes_of_ascii """  ) repeat pack // " ++ [27880; 37322]%N ++ runes_of_ascii "
+,
+    } // c")).
+Eval vm_compute in ("<<<M590>>>" ++ check (runes_of_ascii "root packet tag { }  packet MetaDataX{char[007	]
+// c
+/// triple
+asx  @calculatedFrom( ""a\""b""
+) `say ""hi""`// " ++ [27880; 37322]%N ++ runes_of_ascii "
+,  @tag(4294967296 )
+    char[1//x
+packetx ] @calculatedFrom(""a\""b""
+    ) ,
+// " ++ [128512]%N ++ runes_of_ascii " emoji
+// a // b
+@calculatedFrom(""" ++ [233]%N ++ runes_of_ascii "t" ++ [233]%N ++ runes_of_ascii """  ) repeat pack // " ++ [27880; 37322]%N ++ runes_of_ascii "
+,
+    } // c")).
+Eval vm_compute in ("<<<M626>>>" ++ check (runes_of_ascii "root packet tag { }  packet MetaDataX{char[007	]
+// c
+/// triple
+asx  @calculatedFrom( ""a\""b""
+) `say ""hi""`// " ++ [27880; 37322]%N ++ runes_of_ascii "
+,  @tag(4294967296 )
+    char[1//x
+] packetx @calculatedFrom(""a\""b""
+    ) ,
+// " ++ [128512]%N ++ runes_of_ascii " emoji
+// a // b
+@calculatedFrom(i32  ) repeat pack // " ++ [27880; 37322]%N ++ runes_of_ascii "
+,
+    } // c")).
+Eval vm_compute in ("<<<M1515>>>" ++ check (runes_of_ascii "packet P1 {
+    u8 a,
+}
+packet P2 {
+    P1,
+}
+packet P3 {
+    P2,
+    P1,
+}
+packet P4 {
+    repeat P3,
+    P2,
+}
+root packet P5 {
+    P4,
+    P3,
+    P1,
+    u8 K,
+    match K as Body {
+        4 : P4,
+        3 : P3,
+        2 : P2,
+        1 : P1,
+    },
+}
+")).
+Eval vm_compute in ("<<<M1469>>>" ++ check (runes_of_ascii "// top
+options // c0a
+  // c0b
+{ FixedStringPadFromLeft
+    // c2
+=
+    // c3
+true
+    // c4
+; // c5
+}
+    // c6
+root packet // c8a
+  // c8b
+P // c9a
+  // c9b
+{ // c10
+char[ // c11
+4
+    // c12
+] z // c14
+, // c15
+} // c16a
+  // c16b
+")).
+Eval vm_compute in ("<<<M1685>>>" ++ check (runes_of_ascii "root packet f32a {
+    trueish falsey,
+    tag,
+    repeat Pad {
+        u32 i8i8 @calculatedFrom(""x y""),
+    },
+    @calculatedFrom(""// no comment"")
+    @lengthOf(calculatedFrom)
+    @tag(65535)
+    string T,
+}")).
+Eval vm_compute in ("<<<M2023>>>" ++ check (runes_of_ascii "options {
+    FixedStringPadChar = '0';
+}
+
+packet Q {
+    zchar[4] z,
+    @rightPad('\x00')
+    char[3] n,
+    char[5] d,
+}
+
+root packet R {
+    Q,
+    zchar[8] top,
+    repeat zchar[2] zs,
+}")).
+Eval vm_compute in ("<<<M440>>>" ++ check (runes_of_ascii "packet
+    // `tick` ""quote"" 'q'
+    crc
+// packet A { u8 x, }
+//	t
+{
+u32 a1 ,
+    // trailing space 
+    roots
+charz //
+`two words`,	}
+    MetaData MetaData int {
+} /// triple")).
+Eval vm_compute in ("<<<M395>>>" ++ check (runes_of_ascii "packet
+    // `tick` ""quote"" 'q'
+    crc
+// packet A { u8 x, }
+//	t
+{ {
+u32 a1 ,
+    // trailing space 
+    roots
+charz //
+`two words`,	}
+    MetaData int {
+} /// triple")).
+Eval vm_compute in ("<<<M705>>>" ++ check (runes_of_ascii "root packet len // trailing space 
+{
+// " ++ [27880; 37322]%N ++ runes_of_ascii "
+//	t
+char[10
+] metadata	@lengthOf( x" ++ [178]%N ++ runes_of_ascii " ) `crlf
+line`,
+    @rightPad
+( ' '
+) string
+    Header @calculatedFrom( ""a\\""
+    ), }
+")).
+Eval vm_compute in ("<<<M1609>>>" ++ check (runes_of_ascii "  MetaData
+    u
+	{ BodyLength
+	repeatCount	// packet A { u8 x, }
+
+  , } 
+options  { string_ =
+
+    false;	i8i8
+	=
+    10
+
+    ;}  root
+packet
+    float
+    {  }  //")).
+Eval vm_compute in ("<<<M69>>>" ++ check (runes_of_ascii "options { o =""x y""
+//x
+// trailing space 
+; float
+    = ""\n"" metadata
+// " ++ [128512]%N ++ runes_of_ascii " emoji
+// `tick` ""quote"" 'q'
+=
+    """ ++ [128512]%N ++ runes_of_ascii """;Logon
+//
+//	t
+=
+true
+; i8i8  = string// @lengthOf(
+}")).
+Eval vm_compute in ("<<<M1273>>>" ++ check (runes_of_ascii "// top
+packet // c0a
+  // c0b
+x
+    // c1
+{ @rightPad
+    // c3
+( // c4a
+  // c4b
+) repeat roots
+    // c7
+Logon // c8
+`doc`
+    // c9
+, } // c11a
+  // c11b
+")).
+Eval vm_compute in ("<<<M2134>>>" ++ check (runes_of_ascii "root packet matchKey {zchar[// c
+  3]pack  @calculatedFrom(	""a	b""
+
+    )
+
+`doc`  , 
+}
+
+    options	{
+	}  MetaData A 
+{ int8 msg_type
+	,
+
+    }")).
+Eval vm_compute in ("<<<M2002>>>" ++ check (runes_of_ascii "packet A {
+    match k as n {
+        [
+            ""a"", 22, ""c c"", 4, ""e"",
+            66, ""g"", 8
+        ] : B,
+        2 : C,
+    },
+}")).
+Eval vm_compute in ("<<<M1814>>>" ++ check (runes_of_ascii "
+packet
+	A  {
+	match k
+
+    as n	{  [
+    1
+, 22 ,007  ,4 
+,5 
+,
+
+66
+, 7 
+,
+    8 ,
+    9
+,
+10 , 11]
+    :B
+	2 :C 
+}
+	,
+}
+")).
+Eval vm_compute in ("<<<M1224>>>" ++ check (runes_of_ascii "root
+// c
+packet matchKey { zchar[ 3 ] pack @calculatedFrom( ""a	b"" ) `doc` , } options { } MetaData A { int8 msg_type , }")).
+Eval vm_compute in ("<<<M1256>>>" ++ check (runes_of_ascii "root packet matchKey { zchar[ 3 ] pack @calculatedFrom( ""a	b"" ) `doc` , } options { }
+// c
+MetaData A { int8 msg_type , }")).
+Eval vm_compute in ("<<<M933>>>" ++ check (runes_of_ascii "packet A {
+    Inner {
+        u8 x `a
+    b
+  c`,
+        Deep {
+            u8 y `a
+    b
+  c`,
+        },
+    },
+}")).
+Eval vm_compute in ("<<<M1787>>>" ++ check (runes_of_ascii "  packet
+
+A
+	{
 
 match
 
-    k as
-    n
-{[	""a""
+k as n {
 
-,
-""bb"" ,	007,
-	""d"" , ""e""
+    [ 1	,
 
-    ,
+    ""bb"",007
+	,
 
-66 ,
-""g"" 
-, ""h"" , 
-9
-, ""j""	]  :
-    B
-    ,2 
-:C}	, 
-}")).
-Eval vm_compute in ("<<<M4104>>>" ++ check (runes_of_ascii "packet A
-	{  u16 len
-    @lengthOf(  body
-
-) `a
-b`
-, u32
-
-    crc @calculatedFrom(
-
-    ""CRC32"" )
-
-    `a
-b`
-, string body , }
-
-")).
-Eval vm_compute in ("<<<M619>>>" ++ check (runes_of_ascii "packet u {
-    uint16 // a // b
-chars  `" ++ [28040; 24687; 31867; 22411]%N ++ runes_of_ascii "`	,// `tick` ""quote"" 'q'
-} root	packet T
-{	leftPad
-Foo `" ++ [28040; 24687; 31867; 22411]%N ++ runes_of_ascii "`
-    ,
-}
-// @lengthOf(
-")).
-Eval vm_compute in ("<<<M3789>>>" ++ check (runes_of_ascii "MetaData roots {
-    As asx,
-    char[1] roots,
-    // c
-    char[007] matchKey,/// triple
-    zchar[1] len,
-    x_y_z u128,
-}")).
-Eval vm_compute in ("<<<M3185>>>" ++ check (runes_of_ascii "// top
-root
-    // c0
-packet
-    // c1
-u128
-    // c2
-{
-    // c3
-chars
-    // c4
-`it's`
-    // c5
-,
-    // c6
-}
-    // c7
-")).
-Eval vm_compute in ("<<<M3321>>>" ++ check (runes_of_ascii "root packet matchKey { zchar[
-// c
-3 ] pack @calculatedFrom( ""a	b"" ) `doc` , } options { } MetaData A { int8 msg_type , }")).
-Eval vm_compute in ("<<<M3353>>>" ++ check (runes_of_ascii "root packet matchKey { zchar[ 3 ] pack @calculatedFrom( ""a	b"" ) `doc` , } options { } MetaData A { int8
-// c
-msg_type , }")).
-Eval vm_compute in ("<<<M1472>>>" ++ check (runes_of_ascii "
-packet
-    falsey { Header@calculatedFrom(""packet""  ) , char[
-    0123456789 ] packetx
-    , } // `tick` ""quote""" ++ [0]%N ++ runes_of_ascii " 'q'")).
-Eval vm_compute in ("<<<M1440>>>" ++ check (runes_of_ascii "
-packet
-    falsey { Header@calculatedFrom(""packet""  ) , ""{,}""
-    0123456789 ] packetx
-    , } // `tick` ""quote"" 'q'")).
-Eval vm_compute in ("<<<M626>>>" ++ check (runes_of_ascii "packet i8i8 { } packet options1{
-    @lengthOf( uint8x
-    ) pack @lengthOf(MetaDataX
-) // c
-, uint8x `say ""hi""`, }")).
-Eval vm_compute in ("<<<M1455>>>" ++ check (runes_of_ascii "
-packet
-    falsey { Header@calculatedFrom(""packet""  ) , char[
-    0123456789 ] (
-    , } // `tick` ""quote"" 'q'")).
-Eval vm_compute in ("<<<M2994>>>" ++ check (runes_of_ascii "packet A {
-  match k as n {
-    [""a"", 22, ""c c"", 4, ""e"", 66, ""g"", 8, ""i"", 10, ""k"", 12] : B,
-    2 : C
-  },
-}")).
-Eval vm_compute in ("<<<M883>>>" ++ check (runes_of_ascii "options /// triple
-{
-    asx ='\x00' ;
-    }
-    //	t
-    options
-{ pack =""CRC32""
-;} root packet
-f32a { }")).
-Eval vm_compute in ("<<<M1318>>>" ++ check (runes_of_ascii "options	{ string_ // " ++ [128512]%N ++ runes_of_ascii " emoji
-= false ; } options { options1
-= '\x00' falsey=
-10 tag/// triple
-=65535}
-")).
-Eval vm_compute in ("<<<M2980>>>" ++ check (runes_of_ascii "packet A {
-  match k as n {
-    [1, ""bb"", 007, ""d"", 5, ""f"", 7, ""h"", 9, ""j"", 11] : B
-    2 : C
-  },
-}")).
-Eval vm_compute in ("<<<M136>>>" ++ check (runes_of_ascii "MetaData
-options1
-    {
-    char[ 7 ] i8i8
-, zchar[ 65535
-] u128
-    , char[]  repeatCount
-,
-}
-")).
-Eval vm_compute in ("<<<M2955>>>" ++ check (runes_of_ascii "packet A {
-  match k as n {
-    [""a"", 22, ""c c"", 4, ""e"", 66, ""g"", 8, ""i""] : B,
-    2 : C
-  },
-}")).
-Eval vm_compute in ("<<<M3881>>>" ++ check (runes_of_ascii "
-options {a  =  true ;
-b =
-	false
-
-    ;c =
-
-    '0' ;
-	d
-=
-    ""s""
-; 
-e
-= 
-007 ;
-	}
-")).
-Eval vm_compute in ("<<<M4549>>>" ++ check (runes_of_ascii "options {
-    zchar = 007
-    Header = char[007];
-    lengthOf = char[7];
-    chars = """";
-}")).
-Eval vm_compute in ("<<<M3269>>>" ++ check (runes_of_ascii "MetaData // c
-float { float64 charz `
-` , } root packet chars { @rightPad ( '0' ) Foo , }")).
-Eval vm_compute in ("<<<M3301>>>" ++ check (runes_of_ascii "MetaData float { float64 charz `
-` , } root packet chars { @rightPad ( '0' ) Foo // c
-, }")).
-Eval vm_compute in ("<<<M3512>>>" ++ check (runes_of_ascii "packet chars { } packet MetaDataX { @tag( 42 ) i16 string_ , repeat
-// c
-x `say ""hi""` , }")).
-Eval vm_compute in ("<<<M370>>>" ++ check (runes_of_ascii "MetaData falsey {
-//x
-//	t
-char[ /// triple
-65535]Packet `{ , }` , // @lengthOf(
-} //x")).
-Eval vm_compute in ("<<<M817>>>" ++ check (runes_of_ascii "  packet
-    stringy  {
-@lengthOf(crc
-) string repeatCount @calculatedFrom(""{,}"" )
-, }")).
-Eval vm_compute in ("<<<M3220>>>" ++ check (runes_of_ascii "packet metadata { Logon
-// c
-{ A `" ++ [28040; 24687; 31867; 22411]%N ++ runes_of_ascii "` , tag o , } , zchar len `// not a comment` , }")).
-Eval vm_compute in ("<<<M1015>>>" ++ check (runes_of_ascii "// trailing space 
-packet Pad  {
-@lengthOf( asx
-    ) repeat
-char[ 3
-    ] u128 ,
-}
-")).
-Eval vm_compute in ("<<<M3443>>>" ++ check (runes_of_ascii "packet o { repeat Logon uint8x , } // c
-options { asx = zchar[ 3 ] stringy = '\x00' }")).
-Eval vm_compute in ("<<<M2950>>>" ++ check (runes_of_ascii "packet A {
-  match k as n {
-    [1, 22, 007, 4, 5, 66, 7, 8, 9] : B
-    2 : C
-  },
-}")).
-Eval vm_compute in ("<<<M1939>>>" ++ check (runes_of_ascii "MetaData
-    u { }  options {
-// c
-// @lengthOf(
-float = int8 ;rootA =false ; As =")).
-Eval vm_compute in ("<<<M3418>>>" ++ check (runes_of_ascii "MetaData body { i64 pack `it's` , } packet stringy { int16 calculatedFrom // c
-, }")).
-Eval vm_compute in ("<<<M2224>>>" ++ check (runes_of_ascii "options
-{ } [ { BodyLength= u16 Header= f64 ; u128 =
-    true
-    ; } // a // b")).
-Eval vm_compute in ("<<<M1929>>>" ++ check (runes_of_ascii "MetaData
-    u { }  options {
-// c
-// @lengthOf(
-float = int8 ;rootA =false ;")).
-Eval vm_compute in ("<<<M2289>>>" ++ check (runes_of_ascii "options
-{ } options { BodyLength= u16 Header= f64 ; u128 =
-    true
-    ;")).
-Eval vm_compute in ("<<<M4005>>>" ++ check (runes_of_ascii "
-
-  MetaData lengthOf
-{
-    uint32  T `crlf
-line`
-,
+    ""d""
+    ,5 ,	""f"" ] :B 2	:C } ,
 
     }
-/// triple")).
-Eval vm_compute in ("<<<M2851>>>" ++ check (runes_of_ascii "@lengthOf( int8 , MetaData repeat @lengthOf( f32 root repeat '\x00' ]")).
-Eval vm_compute in ("<<<M608>>>" ++ check (runes_of_ascii "root packet
-    f32a
-    { @tag( 42
-    ) char
-Header `
-`	,
-    }
 ")).
-Eval vm_compute in ("<<<M158>>>" ++ check (runes_of_ascii "options { x_y_z =
-true;a1 = true ;
-options1  =
-    true  ; }
-")).
-Eval vm_compute in ("<<<M4160>>>" ++ check (runes_of_ascii "packet x {
-    @rightPad()
-    repeat roots Logon `doc`,
-}// c")).
-Eval vm_compute in ("<<<M3387>>>" ++ check (runes_of_ascii "packet x { @rightPad ( ) repeat roots Logon `doc` , } // c
-")).
-Eval vm_compute in ("<<<M3377>>>" ++ check (runes_of_ascii "packet x { @rightPad ( ) repeat // c
-roots Logon `doc` , }")).
-Eval vm_compute in ("<<<M4263>>>" ++ check (runes_of_ascii "
-// top
-    	MetaData// c0
-  o  // c1
-  { 
-} 
-// c3
- 
-")).
-Eval vm_compute in ("<<<M3529>>>" ++ check (runes_of_ascii "root packet P
-	{
-
-    repeat char cs, u8 x
-
-,  }
-
-")).
-Eval vm_compute in ("<<<M616>>>" ++ check (runes_of_ascii "// packet A { u8 x, }
+Eval vm_compute in ("<<<M875>>>" ++ check (runes_of_ascii "packet A {
+  match k as n {
+    [""a"", ""bb"", ""c c"", ""d"", ""e"", ""f"", ""g"", ""h"", ""i"", ""j""] : B,
+    2 : C
+  },
+}")).
+Eval vm_compute in ("<<<M1997>>>" ++ check (runes_of_ascii "
 MetaData
-    matchKey	{	}
-")).
-Eval vm_compute in ("<<<M2847>>>" ++ check (runes_of_ascii "zchar[ i64 repeat ) false ) char[ repeat char[")).
-Eval vm_compute in ("<<<M3052>>>" ++ check (runes_of_ascii "options {
-    a = ""x\
-y"";
-    b = ""x\
-y""
-}")).
-Eval vm_compute in ("<<<M1081>>>" ++ check (runes_of_ascii "packet // packet A { u8 x, }
-rootA
+body
 {
+i64	pack `it's`  ,
+
+    // c
+  	}
+	packet
+
+stringy {
+    int16
+    calculatedFrom	, }
+")).
+Eval vm_compute in ("<<<M1938>>>" ++ check (runes_of_ascii "packet crc {
+    u32 a1,
+    // trailing space 
+    roots `two words`,
+}
+
+MetaData int {
+}/// triple")).
+Eval vm_compute in ("<<<M1591>>>" ++ check (runes_of_ascii "MetaData float {
+    float64 charz `
+    `,
+}
+
+root packet chars {
+    @rightPad('0')
+    Foo,
 }")).
-Eval vm_compute in ("<<<M3199>>>" ++ check (runes_of_ascii "root packet u128 { chars `it's` // c
+Eval vm_compute in ("<<<M887>>>" ++ check (runes_of_ascii "packet A {
+  match k as n {
+    [1, 22, 007, 4, 5, 66, 7, 8, 9, 10, 11] : B
+    2 : C
+  },
+}")).
+Eval vm_compute in ("<<<M1183>>>" ++ check (runes_of_ascii "MetaData float
+// c
+{ float64 charz `
+` , } root packet chars { @rightPad ( '0' ) Foo , }")).
+Eval vm_compute in ("<<<M1215>>>" ++ check (runes_of_ascii "MetaData float { float64 charz `
+` , } root packet chars { @rightPad ( '0' ) Foo ,
+// c
+}")).
+Eval vm_compute in ("<<<M1426>>>" ++ check (runes_of_ascii "packet chars { } packet MetaDataX { @tag( 42 ) i16 string_ , repeat x `say ""hi""` // c
 , }")).
-Eval vm_compute in ("<<<M3055>>>" ++ check (runes_of_ascii "options {
-    a = ""\
-"";
-    b = ""\
-""
+Eval vm_compute in ("<<<M1124>>>" ++ check (runes_of_ascii "packet // c
+metadata { Logon { A `" ++ [28040; 24687; 31867; 22411]%N ++ runes_of_ascii "` , tag o , } , zchar len `// not a comment` , }")).
+Eval vm_compute in ("<<<M1156>>>" ++ check (runes_of_ascii "packet metadata { Logon { A `" ++ [28040; 24687; 31867; 22411]%N ++ runes_of_ascii "` , tag o , } , zchar len `// not a comment` , // c
 }")).
-Eval vm_compute in ("<<<M3165>>>" ++ check (runes_of_ascii "options { a = 1; // a
+Eval vm_compute in ("<<<M1361>>>" ++ check (runes_of_ascii "packet o { repeat Logon uint8x , } options { asx
+// c
+= zchar[ 3 ] stringy = '\x00' }")).
+Eval vm_compute in ("<<<M147>>>" ++ check (runes_of_ascii "packet
+    zchar { @lengthOf(Header )f32 string_ `a\`
+    , } // packet A { u8 x, }")).
+Eval vm_compute in ("<<<M1322>>>" ++ check (runes_of_ascii "MetaData body { i64 pack `it's` , } packet
+// c
+stringy { int16 calculatedFrom , }")).
+Eval vm_compute in ("<<<M1799>>>" ++ check (runes_of_ascii "packet
+
+A
+
+{ match
+k	as
+n
+
+{[
+
+1	,  22 
+,	""c c""
+,4,
+	5 ]:
+	B,
+
+2
+
+:  C }
+,
+}
+")).
+Eval vm_compute in ("<<<M816>>>" ++ check (runes_of_ascii "packet A {
+  match k as n {
+    [1, 22, ""c c"", 4, 5] : B,
+    2 : C
+  },
+}")).
+Eval vm_compute in ("<<<M804>>>" ++ check (runes_of_ascii "packet A {
+  match k as n {
+    [1, 22, ""c c"", 4] : B
+    2 : C
+  },
+}")).
+Eval vm_compute in ("<<<M1162>>>" ++ check (runes_of_ascii "// top
+root // c0a
+  // c0b
+packet pack // c2a
+  // c2b
+{ // c3
+} ")).
+Eval vm_compute in ("<<<M1664>>>" ++ check (runes_of_ascii "options {	leftPad 	 //	t
+  = 	 //	t
+
+	""" ++ [28040; 24687]%N ++ runes_of_ascii """
+    }  // " ++ [128512]%N ++ runes_of_ascii " emoji")).
+Eval vm_compute in ("<<<M1282>>>" ++ check (runes_of_ascii "packet x { @rightPad // c
+( ) repeat roots Logon `doc` , }")).
+Eval vm_compute in ("<<<M263>>>" ++ check (runes_of_ascii "root
+packet i8i8 { @lengthOf(
+Packet)
+    u32 u8x, }")).
+Eval vm_compute in ("<<<M66>>>" ++ check (runes_of_ascii "// c
+MetaData calculatedFrom {Foo msg_type ,
+}
+")).
+Eval vm_compute in ("<<<M952>>>" ++ check (runes_of_ascii "MetaData M {
+    u8 x `
+x`,
+    T t `
+x`,
+}")).
+Eval vm_compute in ("<<<M1110>>>" ++ check (runes_of_ascii "root packet u128 { chars `it's` // c
+, }")).
+Eval vm_compute in ("<<<M1076>>>" ++ check (runes_of_ascii "options { a = 1; // a
  b = 2 // b
  }")).
-Eval vm_compute in ("<<<M2128>>>" ++ check (runes_of_ascii "options{
-_x
-= true
-} options
-{ o	=")).
-Eval vm_compute in ("<<<M2834>>>" ++ check (runes_of_ascii "dxT`3-=WNaxe4?ugHL<=^O4.Z~pd=^ii}")).
-Eval vm_compute in ("<<<M2625>>>" ++ check (runes_of_ascii "packet A { @leftPad('0' u8 x, }")).
-Eval vm_compute in ("<<<M3102>>>" ++ check (runes_of_ascii "packet A {
- u8 x `d" ++ [8233]%N ++ runes_of_ascii "`, // c" ++ [8233]%N ++ runes_of_ascii "
+Eval vm_compute in ("<<<M1928>>>" ++ check (runes_of_ascii "packet A {
+    u8 x `d" ++ [8239]%N ++ runes_of_ascii "`,// c" ++ [8239]%N ++ runes_of_ascii "
 }")).
-Eval vm_compute in ("<<<M2590>>>" ++ check (runes_of_ascii "packet A { x @lengthOf(3), }")).
-Eval vm_compute in ("<<<M4258>>>" ++ check (runes_of_ascii "
-// c" ++ [8202]%N ++ runes_of_ascii "
-  packet 
-A {
-    } ")).
-Eval vm_compute in ("<<<M2766>>>" ++ check (runes_of_ascii "root u8 @tag( ) @rightPad")).
-Eval vm_compute in ("<<<M3168>>>" ++ check (runes_of_ascii "packet A { // a
- u8 x, }")).
-Eval vm_compute in ("<<<M285>>>" ++ check (runes_of_ascii "MetaData leftPad {
-}
-")).
-Eval vm_compute in ("<<<M2788>>>" ++ check (runes_of_ascii "20eb,uu[8$`5hB(bTQC<")).
-Eval vm_compute in ("<<<M3125>>>" ++ check (runes_of_ascii "packet A {
-}
-// c 	")).
-Eval vm_compute in ("<<<M3081>>>" ++ check (runes_of_ascii "// c" ++ [5760]%N ++ runes_of_ascii "
-packet A {
+Eval vm_compute in ("<<<M758>>>" ++ check (runes_of_ascii "i64 string char[] as char[] :")).
+Eval vm_compute in ("<<<M1163>>>" ++ check (runes_of_ascii "// c
+root packet pack { }")).
+Eval vm_compute in ("<<<M1635>>>" ++ check (runes_of_ascii "root packet pack {
 }")).
-Eval vm_compute in ("<<<M956>>>" ++ check (runes_of_ascii "packet
-Z9_  {  }
-")).
-Eval vm_compute in ("<<<M348>>>" ++ check (runes_of_ascii "packet i64_ { }
-")).
-Eval vm_compute in ("<<<M2570>>>" ++ check (runes_of_ascii "packet A { x }")).
-Eval vm_compute in ("<<<M2844>>>" ++ check ([65533; 1256; 65533; 0; 65533; 7; 65533]%N ++ runes_of_ascii "1" ++ [16]%N ++ runes_of_ascii "wI" ++ [4]%N)).
-Eval vm_compute in ("<<<M2729>>>" ++ check (runes_of_ascii "6)@""I`81R")).
-Eval vm_compute in ("<<<M2492>>>" ++ check (runes_of_ascii "@tag(1)")).
-Eval vm_compute in ("<<<M2431>>>" ++ check (runes_of_ascii "char_")).
-Eval vm_compute in ("<<<M3129>>>" ++ check (runes_of_ascii "// c" ++ [8203]%N)).
-Eval vm_compute in ("<<<M2769>>>" ++ check (runes_of_ascii "int8")).
-Eval vm_compute in ("<<<M2680>>>" ++ check (runes_of_ascii "`d`")).
-Eval vm_compute in ("<<<M2455>>>" ++ check (runes_of_ascii "a")).
+Eval vm_compute in ("<<<M1001>>>" ++ check (runes_of_ascii "packet A {
+}
+// c" ++ [8202]%N)).
+Eval vm_compute in ("<<<M989>>>" ++ check (runes_of_ascii "packet A {
+}// c" ++ [5760]%N)).
+Eval vm_compute in ("<<<M2067>>>" ++ check (runes_of_ascii "packet T {
+}")).
+Eval vm_compute in ("<<<M995>>>" ++ check (runes_of_ascii "// c" ++ [8192]%N)).
+Eval vm_compute in ("<<<M111>>>" ++ check (@nil rune)).
